@@ -1,1390 +1,16 @@
-(* C04: the contract of the Bounded protocol for the models of MachineModel.v, for ALL inputs.
-   Part A: consequences of the contract (stability on single values, termination within `width` steps, the
-           executable statement holds_events on the trace the observer records).
-   Part B: ConstantCostEdit, the component-wise sum (KeyValuePairEdit ...), repeat_until_tightened /
-           FixedLengthSequenceEdit.
-   Part C: EditDistance (fringe minimum, constant lower bound, upper bound, completion).
-   Part D: the universal machine and the closing induction over list / string / key-value trees. *)
+(* C04, Part D: the universal machine and the closing induction over trees (scalars, strings, lists, key/value pairs,
+   FixedKeyDictNodes, DictNodes / MultiSetNodes without repeated elements).  Parts A-C are in MachineCore.v (re-exported),
+   EditCollection in MachineColl.v, the matcher and MultiSetEdit in MachineMatch.v. *)
 From Coq Require Import ZArith List Bool Lia Permutation Sorted.
 Require Import GT.PyBase GT.Data GT.EdTypes GT.EdEngine GT.EdFacts GT.EdEngineProofs GT.LevModel GTgen.EdGen GT.EdParams
                GT.EdTie GT.ScriptSpec GT.ScriptModel GT.ListAux GT.ScriptProofs GT.EqualSpec GT.EqualProofs
-               GT.MachineSpec GT.MachineModel.
+               GT.MachineSpec GT.MachineModel GT.MachineColl GT.MachineMatch.
+Require Export GT.MachineCore.
 Import ListNotations.
 Open Scope Z_scope.
 
-(* ================================================================ Part A: the contract *)
-
-Lemma zr_eta : forall r : zr, r = (fst r, snd r).
-Proof. intros [a b]. reflexivity. Qed.
-
-Lemma zr_eq : forall a b : zr, fst a = fst b -> snd a = snd b -> a = b.
-Proof. intros [a1 a2] [b1 b2]; simpl; intros; subst; reflexivity. Qed.
-
-Lemma zdefb_spec : forall r, zdefb r = true <-> zdefinitive r.
-Proof. intros r. unfold zdefb, zdefinitive. apply Z.eqb_eq. Qed.
-
-Lemma zdefb_false : forall r, zdefb r = false <-> ~ zdefinitive r.
-Proof. intros r. unfold zdefb, zdefinitive. apply Z.eqb_neq. Qed.
-
-(* a contained range that differs is strictly tighter at one end *)
-Lemma contained_neq_tighter : forall a a' : zr, zcontains a a' -> a' <> a -> fst a < fst a' \/ snd a' < snd a.
-Proof.
-  intros a a' [H1 H2] N.
-  destruct (Z.eq_dec (fst a) (fst a')) as [E1|E1]; [|lia].
-  destruct (Z.eq_dec (snd a) (snd a')) as [E2|E2]; [|lia].
-  exfalso. apply N. apply zr_eq; congruence.
-Qed.
-
-Lemma tighter_spec : forall n o, tighter n o = true <-> (fst o < fst n \/ snd n < snd o).
-Proof.
-  intros n o. unfold tighter. rewrite orb_true_iff, !Z.ltb_lt. tauto.
-Qed.
-
-Lemma tighter_false : forall n o, tighter n o = false <-> (fst n <= fst o /\ snd o <= snd n).
-Proof.
-  intros n o. unfold tighter. rewrite orb_false_iff, !Z.ltb_ge. tauto.
-Qed.
-
-Lemma contained_not_tighter_eq : forall a a', zcontains a a' -> tighter a' a = false -> a' = a.
-Proof.
-  intros a a' [H1 H2] T. apply tighter_false in T. apply zr_eq; lia.
-Qed.
-
-(* the contract is its own invariant *)
-Lemma cv_step : forall k M t v, ContractV k M t v -> step_ok k M (fun t' => ContractV k M t' v) v t.
-Proof.
-  intros k M t v (Inv & Hi & Hs). destruct (Hs t Hi) as (H1 & H2 & H3 & H4 & H5).
-  unfold step_ok. cbn zeta. split; [exists Inv; split; assumption|]. tauto.
-Qed.
-
-Lemma cv_next : forall k M t v, ContractV k M t v -> ContractV k M (fst (tig M t)) v.
-Proof. intros k M t v H. apply (cv_step k M t v H). Qed.
-
-Lemma cv_sound : forall k M t v, ContractV k M t v -> fst (bnd M t) <= v <= snd (bnd M t).
-Proof. intros k M t v H. apply (cv_step k M t v H). Qed.
-
-Lemma cv_weaken : forall M t v, ContractV true M t v -> ContractV false M t v.
-Proof.
-  intros M t v (Inv & Hi & Hs). exists Inv. split; [assumption|].
-  intros u Hu. destruct (Hs u Hu) as (H1 & H2 & H3 & H4 & H5).
-  unfold step_ok. cbn zeta. split; [exact H1|]. split; [exact H2|]. split; [exact H3|]. split; [exact H4|].
-  intros R. split; [apply H5; exact R|discriminate].
-Qed.
-
-Lemma cv_weaken_any : forall k M t v, ContractV k M t v -> ContractV false M t v.
-Proof. intros [|] M t v H; [apply cv_weaken|]; assumption. Qed.
-
-(* on a single value every call returns False and changes nothing; the value is the final one *)
-Lemma cv_definitive : forall k M t v, ContractV k M t v -> zdefinitive (bnd M t) ->
-  bnd M t = (v, v) /\ snd (tig M t) = false /\ bnd M (fst (tig M t)) = bnd M t.
-Proof.
-  intros k M t v H D. pose proof (cv_step k M t v H) as (H1 & H2 & H3 & H4 & H5).
-  pose proof (cv_sound _ _ _ _ H1) as H2'. unfold zdefinitive in D. destruct H3 as [C1 C2].
-  assert (E : bnd M (fst (tig M t)) = bnd M t) by (apply zr_eq; lia).
-  split; [apply zr_eq; simpl; lia|]. split; [|exact E].
-  destruct (snd (tig M t)) eqn:R; [|reflexivity]. exfalso. apply (H4 eq_refl). exact E.
-Qed.
-
-(* a True step shrinks the width *)
-Lemma cv_true_width : forall k M t v, ContractV k M t v -> snd (tig M t) = true ->
-  0 <= width (bnd M (fst (tig M t))) < width (bnd M t).
-Proof.
-  intros k M t v H R. pose proof (cv_step k M t v H) as (H1 & H2 & H3 & H4 & H5).
-  pose proof (cv_sound _ _ _ _ H1) as H2'.
-  destruct (contained_neq_tighter _ _ H3 (H4 R)); destruct H3; unfold width; lia.
-Qed.
-
-Lemma cv_width_nonneg : forall k M t v, ContractV k M t v -> 0 <= width (bnd M t).
-Proof. intros k M t v H. pose proof (cv_sound _ _ _ _ H). unfold width. lia. Qed.
-
-(* transfer along an embedding of machines *)
-Lemma cv_embed : forall k (M1 M2 : machine) (f : St M1 -> St M2),
-  (forall s, bnd M2 (f s) = bnd M1 s) ->
-  (forall s, tig M2 (f s) = (f (fst (tig M1 s)), snd (tig M1 s))) ->
-  forall s v, ContractV k M1 s v -> ContractV k M2 (f s) v.
-Proof.
-  intros k M1 M2 f Hb Ht s v H.
-  exists (fun t => exists s, t = f s /\ ContractV k M1 s v). split; [exists s; auto|].
-  intros t (u & -> & Hu). pose proof (cv_step k M1 u v Hu) as (H1 & H2 & H3 & H4 & H5).
-  unfold step_ok. cbn zeta. rewrite Ht. cbn [fst snd]. rewrite !Hb.
-  split; [exists (fst (tig M1 u)); auto|]. tauto.
-Qed.
-
-(* `while x.tighten_bounds(): pass` terminates within width+1 calls on a single value, the final one *)
-Lemma run_fix_ok : forall k C fuel x v, ContractV k C x v -> (Z.to_nat (width (bnd C x)) < fuel)%nat ->
-  exists x', run_fix (tig C) fuel x = Some x' /\ ContractV k C x' v /\ bnd C x' = (v, v).
-Proof.
-  intros k C fuel. induction fuel as [|fuel IH]; intros x v H F; [lia|].
-  cbn [run_fix]. pose proof (cv_step k C x v H) as (H1 & H2 & H3 & H4 & H5).
-  destruct (snd (tig C x)) eqn:R.
-  - apply IH; [exact H1|]. pose proof (cv_true_width _ _ _ _ H R). lia.
-  - exists (fst (tig C x)). split; [reflexivity|]. split; [exact H1|].
-    destruct (H5 eq_refl) as [D _]. apply (cv_definitive _ _ _ _ H1 D).
-Qed.
-
-Lemma run_def_ok : forall k C fuel x v, ContractV k C x v -> (Z.to_nat (width (bnd C x)) < fuel)%nat ->
-  exists x', run_def (bnd C) (tig C) fuel x = Some x' /\ ContractV k C x' v /\ bnd C x' = (v, v).
-Proof.
-  intros k C fuel. induction fuel as [|fuel IH]; intros x v H F; [lia|].
-  cbn [run_def]. destruct (zdefb (bnd C x)) eqn:D.
-  - exists x. split; [reflexivity|]. split; [exact H|]. apply zdefb_spec in D. apply (cv_definitive _ _ _ _ H D).
-  - pose proof (cv_step k C x v H) as (H1 & H2 & H3 & H4 & H5).
-    destruct (snd (tig C x)) eqn:R.
-    + assert (Hw : (Z.to_nat (width (bnd C (fst (tig C x)))) < fuel)%nat)
-        by (pose proof (cv_true_width _ _ _ _ H R); lia).
-      destruct fuel as [|fuel']; [lia|]. apply IH; assumption.
-    + exists (fst (tig C x)). split; [reflexivity|]. split; [exact H1|].
-      destruct (H5 eq_refl) as [D' _]. apply (cv_definitive _ _ _ _ H1 D').
-Qed.
-
-(* ---------------------------------------------------------------- the executable statement on the observer's trace *)
-Lemma rv_leb_fin : forall x y, rv_leb (Fin x) (Fin y) = (x <=? y).
-Proof. reflexivity. Qed.
-
-Lemma contains_b_of : forall a a', zcontains a a' -> contains_b (rng_of a) (rng_of a') = true.
-Proof.
-  intros a a' [H1 H2]. unfold contains_b, rng_of. simpl. apply andb_true_iff. split; apply Z.leb_le; assumption.
-Qed.
-
-Lemma rng_eqb_of : forall a a', rng_eqb (rng_of a) (rng_of a') = true <-> a = a'.
-Proof.
-  intros a a'. unfold rng_eqb, rng_of. simpl. rewrite andb_true_iff, !Z.eqb_eq. split.
-  - intros [H1 H2]. apply zr_eq; assumption.
-  - intros ->. auto.
-Qed.
-
-Lemma definitive_b_of : forall a, definitive_b (rng_of a) = zdefb a.
-Proof. intros [x y]. reflexivity. Qed.
-
-Lemma rng_ok_of : forall a, fst a <= snd a -> rng_ok (rng_of a) = true.
-Proof. intros a H. unfold rng_ok, rng_of. simpl. apply Z.leb_le. exact H. Qed.
-
-Lemma contains_refl : forall a, zcontains a a.
-Proof. intros a. split; lia. Qed.
-
-(* every step of the trace satisfies the clauses, whatever the fuel *)
-Lemma trace_scan : forall M v fuel s, ContractV true M s v ->
-  forall p, zcontains p (bnd M s) -> scan true (Some (rng_of p)) [] (trace_of M fuel s) = true.
-Proof.
-  intros M v fuel. induction fuel as [|fuel IH]; intros s H p Hp; [reflexivity|].
-  cbn [trace_of scan app]. pose proof (cv_step true M s v H) as (H1 & H2 & H3 & H4 & H5).
-  pose proof (cv_sound _ _ _ _ H1) as H2'.
-  rewrite rng_ok_of by lia. rewrite rng_ok_of by lia.
-  assert (S1 : clause_step true (rng_of p) (rng_of (bnd M s)) [] = true).
-  { unfold clause_step. rewrite contains_b_of by assumption. reflexivity. }
-  rewrite S1.
-  assert (S2 : clause_step true (rng_of (bnd M s)) (rng_of (bnd M (fst (tig M s)))) [snd (tig M s)] = true).
-  { unfold clause_step. rewrite contains_b_of by assumption. rewrite !definitive_b_of.
-    destruct (snd (tig M s)) eqn:R; cbn [all_true all_false forallb last no_true_after_false negb andb].
-    - assert (N : rng_eqb (rng_of (bnd M s)) (rng_of (bnd M (fst (tig M s)))) = false).
-      { destruct (rng_eqb _ _) eqn:E; [|reflexivity]. apply rng_eqb_of in E. exfalso. apply (H4 eq_refl). congruence. }
-      rewrite N. simpl.
-      destruct (zdefb (bnd M s)) eqn:D; [|reflexivity].
-      apply zdefb_spec in D. destruct (cv_definitive _ _ _ _ H D) as (_ & R' & _). congruence.
-    - destruct (H5 eq_refl) as [D E]. specialize (E eq_refl).
-      assert (D0 : zdefb (bnd M s) = true) by (apply zdefb_spec; rewrite <- E; exact D).
-      assert (D1 : zdefb (bnd M (fst (tig M s))) = true) by (apply zdefb_spec; exact D).
-      rewrite D0, D1. simpl.
-      assert (Q : rng_eqb (rng_of (bnd M s)) (rng_of (bnd M (fst (tig M s)))) = true) by (apply rng_eqb_of; congruence).
-      rewrite Q. reflexivity. }
-  rewrite S2. simpl.
-  destruct (snd (tig M s)); [|reflexivity].
-  apply IH; [exact H1|apply contains_refl].
-Qed.
-
-Lemma trace_first : forall M v fuel s, ContractV true M s v -> scan true None [] (trace_of M fuel s) = true.
-Proof.
-  intros M v [|fuel] s H; [reflexivity|].
-  pose proof (trace_scan M v (S fuel) s H (bnd M s) (contains_refl _)) as T.
-  cbn [trace_of scan] in *. apply andb_true_iff in T. destruct T as [T1 T2].
-  apply andb_true_iff in T1. destruct T1 as [T1 _]. rewrite T1. exact T2.
-Qed.
-
-(* the trace ends on the single value v once the fuel exceeds the width, and every observation contains v *)
-Lemma trace_last : forall M v fuel s, ContractV true M s v -> (Z.to_nat (width (bnd M s)) < fuel)%nat ->
-  forall acc, last_bounds (trace_of M fuel s) acc = Some (Fin v, Fin v).
-Proof.
-  intros M v fuel. induction fuel as [|fuel IH]; intros s H F acc; [lia|].
-  cbn [trace_of last_bounds]. pose proof (cv_step true M s v H) as (H1 & H2 & H3 & H4 & H5).
-  destruct (snd (tig M s)) eqn:R.
-  - apply IH; [exact H1|]. pose proof (cv_true_width _ _ _ _ H R). lia.
-  - simpl. destruct (H5 eq_refl) as [D _]. destruct (cv_definitive _ _ _ _ H1 D) as (E & _). rewrite E. reflexivity.
-Qed.
-
-Lemma trace_all_contain : forall M v fuel s, ContractV true M s v ->
-  forallb (fun e => match e with EB b => contains_b b (Fin v, Fin v) | ET _ => true end) (trace_of M fuel s) = true.
-Proof.
-  intros M v fuel. induction fuel as [|fuel IH]; intros s H; [reflexivity|].
-  cbn [trace_of forallb]. pose proof (cv_step true M s v H) as (H1 & H2 & H3 & H4 & H5).
-  pose proof (cv_sound _ _ _ _ H1) as H2'.
-  assert (C0 : contains_b (rng_of (bnd M s)) (Fin v, Fin v) = true).
-  { unfold contains_b, rng_of. simpl. apply andb_true_iff. split; apply Z.leb_le; lia. }
-  assert (C1 : contains_b (rng_of (bnd M (fst (tig M s)))) (Fin v, Fin v) = true).
-  { unfold contains_b, rng_of. simpl. apply andb_true_iff. split; apply Z.leb_le; lia. }
-  rewrite C0, C1. simpl. destruct (snd (tig M s)); [apply IH; exact H1|reflexivity].
-Qed.
-
-(* C04 on traces: the executable statement of the property holds on what the active observer records when it
-   drives a machine that satisfies the contract (with enough fuel to reach the first False) *)
-Theorem contract_trace_holds : forall M s v fuel, ContractV true M s v -> (Z.to_nat (width (bnd M s)) < fuel)%nat ->
-  holds_events (trace_of M fuel s) = true.
-Proof.
-  intros M s v fuel H F. unfold holds_events. rewrite (trace_first M v fuel s H). simpl.
-  unfold sound_events. rewrite (trace_last M v fuel s H F None).
-  simpl. rewrite Z.eqb_refl. simpl. apply trace_all_contain. exact H.
-Qed.
-
-(* termination: a False is reached after at most `width` True steps, on the single value v *)
-Theorem contract_terminates : forall k M s v, ContractV k M s v ->
-  exists n, (n <= Z.to_nat (width (bnd M s)))%nat /\
-            snd (tig M (steps M n s)) = false /\ bnd M (fst (tig M (steps M n s))) = (v, v) /\
-            forall i, (i < n)%nat -> snd (tig M (steps M i s)) = true.
-Proof.
-  intros k M s v H. remember (Z.to_nat (width (bnd M s))) as w eqn:W.
-  revert s H W. induction w as [w IH] using lt_wf_ind. intros s H W.
-  pose proof (cv_step k M s v H) as (H1 & H2 & H3 & H4 & H5).
-  destruct (snd (tig M s)) eqn:R.
-  - pose proof (cv_true_width _ _ _ _ H R) as Wd.
-    destruct (IH (Z.to_nat (width (bnd M (fst (tig M s))))) ltac:(lia) (fst (tig M s)) H1 eq_refl)
-      as (n & Hn & Hf & Hb & Ht).
-    exists (S n). split; [lia|]. cbn [steps]. split; [exact Hf|]. split; [exact Hb|].
-    intros [|i] Hi; [exact R|]. cbn [steps]. apply Ht. lia.
-  - exists O. split; [lia|]. cbn [steps]. split; [exact R|]. split.
-    + destruct (H5 eq_refl) as [D _]. apply (cv_definitive _ _ _ _ H1 D).
-    + intros i Hi. lia.
-Qed.
-
-(* ================================================================ Part B *)
-
-(* ---------------------------------------------------------------- ConstantCostEdit *)
-Theorem const_contract : forall c, ContractV true constM c c.
-Proof.
-  intros c. exists (fun t => t = c). split; [reflexivity|].
-  intros t ->. unfold step_ok. simpl. repeat split; try lia; try reflexivity; discriminate.
-Qed.
-
-(* ---------------------------------------------------------------- sums *)
-Lemma zr_sum_cons : forall a l, zr_sum (a :: l) = zr_add a (zr_sum l).
-Proof. reflexivity. Qed.
-
-Section Sum.
-  Variable k : bool.
-  Variable C : machine.
-
-  Definition kids_ok (l : list (St C)) (vs : list Z) : Prop := Forall2 (fun s v => ContractV k C s v) l vs.
-
-  Lemma kids_sound : forall l vs, kids_ok l vs ->
-    fst (zr_sum (map (bnd C) l)) <= zsum vs <= snd (zr_sum (map (bnd C) l)).
-  Proof.
-    induction 1 as [|s v l vs H _ IH]; simpl; [lia|].
-    pose proof (cv_sound _ _ _ _ H). lia.
-  Qed.
-
-  (* one pass of `for e in edits: if e.tighten_bounds(): return True` *)
-  Lemma first_true_spec : forall l vs, kids_ok l vs ->
-    let l' := fst (first_true (tig C) l) in
-    let r := snd (first_true (tig C) l) in
-    let b := zr_sum (map (bnd C) l) in
-    let b' := zr_sum (map (bnd C) l') in
-    kids_ok l' vs /\ zcontains b b' /\
-    (r = true -> fst b < fst b' \/ snd b' < snd b) /\
-    (r = false -> zdefinitive b' /\ (k = true -> b' = b)).
-  Proof.
-    induction 1 as [|s v l vs H Hl IH]; cbn zeta.
-    - simpl. repeat split; try constructor; try lia; try discriminate.
-    - cbn [first_true]. pose proof (cv_step k C s v H) as (H1 & H2 & H3 & H4 & H5).
-      destruct (snd (tig C s)) eqn:R; cbn [fst snd map].
-      + rewrite !zr_sum_cons. unfold zr_add, zcontains. cbn [fst snd].
-        split; [constructor; assumption|]. destruct H3 as [C1 C2].
-        split; [split; lia|]. split; [|discriminate].
-        intros _. destruct (contained_neq_tighter _ _ (conj C1 C2) (H4 eq_refl)); lia.
-      + cbn zeta in IH. destruct IH as (I1 & [I2a I2b] & I3 & I4).
-        rewrite !zr_sum_cons. unfold zr_add, zcontains. cbn [fst snd].
-        split; [constructor; assumption|]. destruct H3 as [C1 C2].
-        split; [split; lia|]. split.
-        * intros E. destruct (I3 E); lia.
-        * intros E. destruct (I4 E) as [D Eq]. destruct (H5 eq_refl) as [D1 Eq1].
-          unfold zdefinitive in *. cbn [fst snd]. split; [lia|].
-          intros K. rewrite (Eq K), (Eq1 K). reflexivity.
-  Qed.
-
-  (* KeyValuePairEdit (and the other component-wise compounds): the contract of the components carries over *)
-  Theorem sum_contract : forall l vs, kids_ok l vs -> ContractV k (sumM C) l (zsum vs).
-  Proof.
-    intros l vs H. exists (fun t => kids_ok t vs). split; [exact H|].
-    intros t Ht. pose proof (first_true_spec t vs Ht) as (S1 & S2 & S3 & S4). cbn zeta in *.
-    unfold step_ok. cbn [sumM St bnd tig].
-    split; [exact S1|]. split; [apply kids_sound; exact Ht|]. split; [exact S2|]. split.
-    - intros R E. destruct (S3 R); rewrite E in *; lia.
-    - intros R. destruct (S4 R) as [D Eq]. split; [exact D|]. intros K. apply Eq. exact K.
-  Qed.
-End Sum.
-
-(* ---------------------------------------------------------------- repeat_until_tightened / FixedLengthSequenceEdit *)
-Section Fixed.
-  Variable k : bool.
-  Variable C : machine.
-
-  Lemma fixed_bnd_eq : forall (l : list (St C)) x,
-    fixed_bnd (bnd C) (l, x) = (fst (zr_sum (map (bnd C) l)) + x, snd (zr_sum (map (bnd C) l)) + x).
-  Proof. reflexivity. Qed.
-
-  (* the decorated function is  first sub-edit that tightens ; whatever the reading of False its components follow,
-     the decorator makes the class satisfy the STRICT contract: it returns False only on a single value, untouched *)
-  Theorem fixed_contract : forall l vs x, kids_ok k C l vs -> ContractV true (fixedM C) (l, x) (zsum vs + x).
-  Proof.
-    intros l vs x H. exists (fun t => kids_ok k C (fst t) vs /\ snd t = x). split; [split; [exact H|reflexivity]|].
-    intros [t x'] [Ht Hx]. cbn [fst snd] in Ht, Hx. subst x'.
-    pose proof (first_true_spec k C t vs Ht) as (S1 & S2 & S3 & S4). cbn zeta in *.
-    pose proof (kids_sound k C t vs Ht) as So.
-    unfold step_ok. cbn [fixedM St bnd tig]. unfold fixed_tig, rut.
-    destruct (zdefb (fixed_bnd (bnd C) (t, x))) eqn:D.
-    - cbn [fst snd]. rewrite fixed_bnd_eq. cbn [fst snd].
-      split; [split; [exact Ht|reflexivity]|]. split; [lia|]. split; [split; lia|]. split; [discriminate|].
-      intros _. apply zdefb_spec in D. rewrite fixed_bnd_eq in D. split; [exact D|reflexivity].
-    - unfold rut_fuel. cbn [rut_loop fst snd].
-      set (t' := fst (first_true (tig C) t)) in *. set (r := snd (first_true (tig C) t)) in *.
-      pose proof (kids_sound k C t' vs S1) as So'.
-      rewrite !fixed_bnd_eq. unfold widened, tighter. cbn [fst snd].
-      destruct S2 as [C1 C2].
-      replace ((fst (zr_sum (map (bnd C) t')) + x <? fst (zr_sum (map (bnd C) t)) + x)
-               || (snd (zr_sum (map (bnd C) t)) + x <? snd (zr_sum (map (bnd C) t')) + x)) with false
-        by (symmetry; apply orb_false_iff; split; apply Z.ltb_ge; lia).
-      apply zdefb_false in D. rewrite fixed_bnd_eq in D. unfold zdefinitive in D. cbn [fst snd] in D.
-      assert (T : zdefb (fst (zr_sum (map (bnd C) t')) + x, snd (zr_sum (map (bnd C) t')) + x)
-                  || ((fst (zr_sum (map (bnd C) t)) + x <? fst (zr_sum (map (bnd C) t')) + x)
-                      || (snd (zr_sum (map (bnd C) t')) + x <? snd (zr_sum (map (bnd C) t)) + x)) = true).
-      { destruct r eqn:R.
-        - apply orb_true_iff. right. apply orb_true_iff. destruct (S3 eq_refl); [left|right]; apply Z.ltb_lt; lia.
-        - apply orb_true_iff. left. apply zdefb_spec. destruct (S4 eq_refl) as [D' _].
-          unfold zdefinitive in *. cbn [fst snd]. lia. }
-      rewrite T. cbn [fst snd]. rewrite !fixed_bnd_eq. cbn [fst snd].
-      split; [split; [exact S1|reflexivity]|]. split; [lia|]. split; [split; cbn [fst snd]; lia|]. split; [|discriminate].
-      intros _ E. injection E as E1 E2.
-      apply orb_true_iff in T. destruct T as [T|T].
-      + apply zdefb_spec in T. unfold zdefinitive in T. cbn [fst snd] in T. lia.
-      + apply orb_true_iff in T. destruct T as [T|T]; apply Z.ltb_lt in T; lia.
-  Qed.
-End Fixed.
-
-(* ================================================================ Part C: EditDistance *)
-
-Lemma in_firstn : forall {A} (l : list A) i x, In x (firstn i l) -> In x l.
-Proof.
-  induction l as [|y l IH]; intros [|i] x Hx; simpl in Hx; try contradiction.
-  destruct Hx as [<-|Hx]; [left; reflexivity|right; apply (IH i x Hx)].
-Qed.
-
-(* ---------------------------------------------------------------- sums of the j smallest elements *)
-Lemma zinsert_comm : forall x y s, zinsert x (zinsert y s) = zinsert y (zinsert x s).
-Proof.
-  intros x y s. induction s as [|z s IH]; cbn [zinsert].
-  - destruct (Z.leb_spec x y), (Z.leb_spec y x); try reflexivity; try lia.
-    assert (x = y) by lia. subst. reflexivity.
-  - destruct (Z.leb_spec y z), (Z.leb_spec x z); cbn [zinsert].
-    + destruct (Z.leb_spec x y), (Z.leb_spec y x), (Z.leb_spec x z), (Z.leb_spec y z); try reflexivity; try lia.
-      assert (x = y) by lia. subst. reflexivity.
-    + destruct (Z.leb_spec x y), (Z.leb_spec y z), (Z.leb_spec x z); try reflexivity; lia.
-    + destruct (Z.leb_spec y x), (Z.leb_spec y z), (Z.leb_spec x z); try reflexivity; lia.
-    + destruct (Z.leb_spec x z), (Z.leb_spec y z); try lia. rewrite IH. reflexivity.
-Qed.
-
-Lemma zsort_perm : forall l l', Permutation l l' -> zsort l = zsort l'.
-Proof.
-  induction 1; cbn [zsort fold_right]; try reflexivity.
-  - fold (zsort l). fold (zsort l'). rewrite IHPermutation. reflexivity.
-  - fold (zsort l). apply zinsert_comm.
-  - congruence.
-Qed.
-
-Lemma zinsert_perm : forall x s, Permutation (x :: s) (zinsert x s).
-Proof.
-  intros x s. induction s as [|y s IH]; cbn [zinsert]; [reflexivity|].
-  destruct (x <=? y); [reflexivity|]. rewrite perm_swap. constructor. exact IH.
-Qed.
-
-Lemma zsort_is_perm : forall l, Permutation l (zsort l).
-Proof.
-  induction l as [|x l IH]; [reflexivity|]. cbn [zsort fold_right]. fold (zsort l).
-  rewrite <- zinsert_perm. constructor. exact IH.
-Qed.
-
-Lemma zsum_perm : forall l l', Permutation l l' -> zsum l = zsum l'.
-Proof. induction 1; simpl; lia. Qed.
-
-Lemma zinsert_sorted : forall x s, StronglySorted Z.le s -> StronglySorted Z.le (zinsert x s).
-Proof.
-  intros x s H. induction H as [|y s Hs IH Hy]; cbn [zinsert].
-  - constructor; constructor.
-  - destruct (Z.leb_spec x y).
-    + constructor; [constructor; assumption|]. constructor; [assumption|].
-      rewrite Forall_forall in *. intros z Hz. specialize (Hy z Hz). lia.
-    + constructor; [exact IH|]. rewrite Forall_forall in *. intros z Hz.
-      apply (Permutation_in _ (Permutation_sym (zinsert_perm x s))) in Hz. destruct Hz as [<-|Hz]; [lia|auto].
-Qed.
-
-Lemma zsort_sorted : forall l, StronglySorted Z.le (zsort l).
-Proof.
-  induction l as [|x l IH]; [constructor|]. cbn [zsort fold_right]. fold (zsort l). apply zinsert_sorted. exact IH.
-Qed.
-
-Lemma zsort_length : forall l, length (zsort l) = length l.
-Proof. intros l. symmetry. apply Permutation_length. apply zsort_is_perm. Qed.
-
-(* shifting the window to the right in a sorted list does not decrease the sum *)
-Lemma sorted_shift : forall s y j, StronglySorted Z.le (y :: s) -> (j <= length s)%nat ->
-  zsum (firstn j (y :: s)) <= zsum (firstn j s).
-Proof.
-  induction s as [|z s IH]; intros y j H L; simpl in L.
-  - assert (j = O) by lia. subst. simpl. lia.
-  - destruct j as [|j]; [simpl; lia|].
-    cbn [firstn zsum fold_right]. inversion H as [|? ? Hs Hy]; subst.
-    assert (y <= z) by (inversion Hy; assumption).
-    specialize (IH z j Hs ltac:(lia)). cbn [firstn zsum fold_right] in IH. unfold zsum in *. lia.
-Qed.
-
-Lemma firstn_insert_le : forall s x j, StronglySorted Z.le s -> (j <= length s)%nat ->
-  zsum (firstn j (zinsert x s)) <= zsum (firstn j s).
-Proof.
-  induction s as [|y s IH]; intros x j H L; simpl in L.
-  - assert (j = O) by lia. subst. simpl. lia.
-  - destruct j as [|j]; [simpl; lia|]. cbn [zinsert]. destruct (Z.leb_spec x y).
-    + cbn [firstn]. change (zsum (x :: firstn j (y :: s))) with (x + zsum (firstn j (y :: s))).
-      change (zsum (y :: firstn j s)) with (y + zsum (firstn j s)).
-      pose proof (sorted_shift s y j H ltac:(lia)). lia.
-    + cbn [firstn]. change (zsum (y :: firstn j (zinsert x s))) with (y + zsum (firstn j (zinsert x s))).
-      change (zsum (y :: firstn j s)) with (y + zsum (firstn j s)).
-      inversion H; subst. specialize (IH x j ltac:(assumption) ltac:(lia)). lia.
-Qed.
-
-Lemma firstn_insert_S : forall s x j, zsum (firstn (S j) (zinsert x s)) <= zsum (firstn j s) + x.
-Proof.
-  induction s as [|y s IH]; intros x j.
-  - cbn [zinsert firstn]. destruct j; simpl; lia.
-  - cbn [zinsert]. destruct (Z.leb_spec x y).
-    + cbn [firstn]. change (zsum (x :: firstn j (y :: s))) with (x + zsum (firstn j (y :: s))). lia.
-    + change (firstn (S j) (y :: zinsert x s)) with (y :: firstn j (zinsert x s)).
-      change (zsum (y :: firstn j (zinsert x s))) with (y + zsum (firstn j (zinsert x s))).
-      destruct j as [|j]; [simpl; lia|].
-      specialize (IH x j). change (firstn (S j) (y :: s)) with (y :: firstn j s).
-      change (zsum (y :: firstn j s)) with (y + zsum (firstn j s)). lia.
-Qed.
-
-Lemma firstn_S_nonneg : forall s j, Forall (fun x => 0 <= x) s -> zsum (firstn j s) <= zsum (firstn (S j) s).
-Proof.
-  induction s as [|y s IH]; intros j H; [destruct j; simpl; lia|].
-  inversion H; subst. destruct j as [|j].
-  - simpl. pose proof (zsum_nonneg (firstn 0 s)). simpl in *. lia.
-  - change (firstn (S (S j)) (y :: s)) with (y :: firstn (S j) s).
-    change (firstn (S j) (y :: s)) with (y :: firstn j s).
-    change (zsum (y :: firstn (S j) s)) with (y + zsum (firstn (S j) s)).
-    change (zsum (y :: firstn j s)) with (y + zsum (firstn j s)).
-    specialize (IH j ltac:(assumption)). lia.
-Qed.
-
-Lemma zsort_nonneg : forall l, Forall (fun x => 0 <= x) l -> Forall (fun x => 0 <= x) (zsort l).
-Proof.
-  intros l H. rewrite Forall_forall in *. intros x Hx.
-  apply H. apply (Permutation_in _ (Permutation_sym (zsort_is_perm l))). exact Hx.
-Qed.
-
-(* the pool grows by x: the sum of the j smallest can only fall; one more element costs at most x more *)
-Lemma ss_cons_le : forall x l j, (j <= length l)%nat -> sum_smallest j (x :: l) <= sum_smallest j l.
-Proof.
-  intros x l j L. unfold sum_smallest. cbn [zsort fold_right]. fold (zsort l).
-  apply firstn_insert_le; [apply zsort_sorted|rewrite zsort_length; exact L].
-Qed.
-
-Lemma ss_cons_S : forall x l j, sum_smallest (S j) (x :: l) <= sum_smallest j l + x.
-Proof.
-  intros x l j. unfold sum_smallest. cbn [zsort fold_right]. fold (zsort l). apply firstn_insert_S.
-Qed.
-
-Lemma ss_S_nonneg : forall l j, Forall (fun x => 0 <= x) l -> sum_smallest j l <= sum_smallest (S j) l.
-Proof. intros l j H. unfold sum_smallest. apply firstn_S_nonneg. apply zsort_nonneg. exact H. Qed.
-
-Lemma ss_nonneg : forall l j, Forall (fun x => 0 <= x) l -> 0 <= sum_smallest j l.
-Proof.
-  intros l j H. unfold sum_smallest. apply zsum_nonneg.
-  pose proof (zsort_nonneg l H) as H'. rewrite Forall_forall in *. intros x Hx. apply H'.
-  apply (in_firstn _ j x Hx).
-Qed.
-
-(* ---------------------------------------------------------------- lists of minima, fringe diagonals *)
-Lemma fold_min_le_init : forall l x, fold_right Z.min x l <= x.
-Proof. induction l; intros; simpl; [lia|specialize (IHl x); lia]. Qed.
-
-Lemma fold_min_le_in : forall l x y, In y l -> fold_right Z.min x l <= y.
-Proof. induction l; intros x y H; simpl in *; [contradiction|]. destruct H as [<-|H]; [lia|]. specialize (IHl x y H). lia. Qed.
-
-Lemma zmin_list_le : forall l x, In x l -> zmin_list l <= x.
-Proof.
-  intros [|y l] x H; [contradiction|]. cbn [zmin_list]. destruct H as [<-|H]; [apply fold_min_le_init|apply fold_min_le_in; exact H].
-Qed.
-
-Lemma fold_min_ge : forall l x b, b <= x -> (forall y, In y l -> b <= y) -> b <= fold_right Z.min x l.
-Proof. induction l; intros x b Hx H; simpl; [exact Hx|]. apply Z.min_glb; [apply H; left; reflexivity|apply IHl; [exact Hx|intros; apply H; right; assumption]]. Qed.
-
-Lemma zmin_list_ge : forall l b, l <> [] -> (forall y, In y l -> b <= y) -> b <= zmin_list l.
-Proof.
-  intros [|y l] b N H; [congruence|]. cbn [zmin_list]. apply fold_min_ge; [apply H; left; reflexivity|intros; apply H; right; assumption].
-Qed.
-
-Lemma in_diag : forall m n k r c, In (r, c) (diag m n k) <-> (r + c = k /\ r <= m /\ c <= n)%nat.
-Proof.
-  intros m n k r c. unfold diag. rewrite filter_In, in_map_iff. cbn [snd]. rewrite Nat.leb_le. split.
-  - intros [(r' & E & Hr) Hc]. injection E as -> <-. rewrite <- in_rev, in_seq in Hr. lia.
-  - intros (E & Hr & Hc). split; [|exact Hc]. exists r. split; [f_equal; lia|]. rewrite <- in_rev, in_seq. lia.
-Qed.
-
-Lemma diag_nonempty : forall m n k, (k <= m + n)%nat -> diag m n k <> [].
-Proof.
-  intros m n k H E.
-  assert (I : In (Nat.min k m, (k - Nat.min k m)%nat) (diag m n k)) by (apply in_diag; lia).
-  rewrite E in I. contradiction.
-Qed.
-
-(* ---------------------------------------------------------------- the cost matrix *)
-Lemma nth_nonneg : forall l i, Forall (fun x => 0 <= x) l -> 0 <= nth i l 0.
-Proof.
-  intros l i H. destruct (Nat.lt_ge_cases i (length l)) as [L|L].
-  - rewrite Forall_forall in H. apply H. apply nth_In. exact L.
-  - rewrite nth_overflow by exact L. lia.
-Qed.
-
-Lemma zsum_firstn_S : forall l i, (i < length l)%nat -> zsum (firstn (S i) l) = zsum (firstn i l) + nth i l 0.
-Proof. intros l i H. rewrite (firstn_S_nth l i 0 H), zsum_app. simpl. lia. Qed.
-
-Lemma rev_firstn_S : forall l i, (i < length l)%nat -> rev (firstn (S i) l) = nth i l 0 :: rev (firstn i l).
-Proof. intros l i H. rewrite (firstn_S_nth l i 0 H), rev_app_distr. reflexivity. Qed.
-
-Section Matrix.
-  Variables (rc ic : list Z) (mcs : list (list Z)).
-  Hypothesis Hd : dims_ok rc ic mcs.
-  Hypothesis Hrc : Forall (fun x => 0 <= x) rc.
-  Hypothesis Hic : Forall (fun x => 0 <= x) ic.
-  Hypothesis Hmc : Forall (Forall (fun x => 0 <= x)) mcs.
-
-  Let n := length rc.
-  Let m := length ic.
-  Definition cc (r c : nat) : Z := ccost (cell_at (matrix rc ic mcs) r c).
-  Definition mcv (r c : nat) : Z := nth c (nth r mcs []) 0.
-
-  Lemma mcv_nonneg : forall r c, 0 <= mcv r c.
-  Proof.
-    intros r c. unfold mcv. apply nth_nonneg.
-    destruct (Nat.lt_ge_cases r (length mcs)) as [L|L].
-    - rewrite Forall_forall in Hmc. apply Hmc. apply nth_In. exact L.
-    - rewrite nth_overflow by exact L. constructor.
-  Qed.
-
-  (* every cell is a predecessor's cost plus the cost of one edit *)
-  Lemma cell_step : forall r c, (r <= m)%nat -> (c <= n)%nat ->
-    (r = O /\ c = O /\ cc r c = 0) \/
-    (exists c', c = S c' /\ cc r c = cc r c' + nth c' rc 0) \/
-    (exists r', r = S r' /\ cc r c = cc r' c + nth r' ic 0) \/
-    (exists r' c', r = S r' /\ c = S c' /\ cc r c = cc r' c' + mcv r' c' /\
-                   mcv r' c' < nth r' ic 0 /\ mcv r' c' < nth c' rc 0).
-  Proof.
-    intros r c Hr Hc. unfold cc. destruct r as [|r], c as [|c].
-    - left. auto.
-    - right. left. exists c. split; [reflexivity|]. rewrite (cell_0S rc ic mcs c) by (fold n; lia). reflexivity.
-    - right. right. left. exists r. split; [reflexivity|]. rewrite (cell_S0 rc ic mcs Hd r) by (fold m; lia). reflexivity.
-    - rewrite (cell_SS rc ic mcs Hd r c) by (fold m n; lia).
-      destruct (best_cases (cell_at (matrix rc ic mcs) r c) (cell_at (matrix rc ic mcs) (S r) c)
-                           (cell_at (matrix rc ic mcs) r (S c)) (nth c (nth r mcs []) 0) (nth r ic 0) (nth c rc 0))
-        as [(_ & Cq & L1 & L2)|[(_ & Cq)|(_ & Cq)]]; rewrite Cq.
-      + right. right. right. exists r, c. unfold mcv. auto.
-      + right. right. left. exists r. auto.
-      + right. left. exists c. auto.
-  Qed.
-
-  (* upper bound: removing and inserting everything *)
-  Lemma cc_upper : forall s r c, (r + c = s)%nat -> (r <= m)%nat -> (c <= n)%nat ->
-    cc r c <= zsum (firstn c rc) + zsum (firstn r ic).
-  Proof.
-    induction s as [s IH] using lt_wf_ind. intros r c Hs Hr Hc.
-    destruct (cell_step r c Hr Hc) as [(-> & -> & E)|[(c' & -> & E)|[(r' & -> & E)|(r' & c' & -> & -> & E & L1 & L2)]]].
-    - rewrite E. simpl. lia.
-    - rewrite E, zsum_firstn_S by (fold n; lia). specialize (IH (r + c')%nat ltac:(lia) r c' eq_refl Hr ltac:(lia)). lia.
-    - rewrite E, (zsum_firstn_S ic) by (fold m; lia). specialize (IH (r' + c)%nat ltac:(lia) r' c eq_refl ltac:(lia) Hc). lia.
-    - rewrite E, zsum_firstn_S by (fold n; lia). rewrite (zsum_firstn_S ic) by (fold m; lia).
-      specialize (IH (r' + c')%nat ltac:(lia) r' c' eq_refl ltac:(lia) ltac:(lia)).
-      pose proof (nth_nonneg rc c' Hrc). lia.
-  Qed.
-
-  (* a diagonal step is strictly below that bound *)
-  Lemma cc_nonneg : forall s r c, (r + c = s)%nat -> (r <= m)%nat -> (c <= n)%nat -> 0 <= cc r c.
-  Proof.
-    induction s as [s IH] using lt_wf_ind. intros r c Hs Hr Hc.
-    destruct (cell_step r c Hr Hc) as [(-> & -> & E)|[(c' & -> & E)|[(r' & -> & E)|(r' & c' & -> & -> & E & L1 & L2)]]].
-    - lia.
-    - specialize (IH (r + c')%nat ltac:(lia) r c' eq_refl Hr ltac:(lia)). pose proof (nth_nonneg rc c' Hrc). lia.
-    - specialize (IH (r' + c)%nat ltac:(lia) r' c eq_refl ltac:(lia) Hc). pose proof (nth_nonneg ic r' Hic). lia.
-    - specialize (IH (r' + c')%nat ltac:(lia) r' c' eq_refl ltac:(lia) ltac:(lia)). pose proof (mcv_nonneg r' c'). lia.
-  Qed.
-
-  (* lower bound: at least |c - r| elements of the longer prefix are removed (inserted), each at its own cost *)
-  Definition lbc (r c : nat) : Z :=
-    if (r <=? c)%nat then sum_smallest (c - r) (rev (firstn c rc)) else sum_smallest (r - c) (rev (firstn r ic)).
-
-  Lemma Forall_rev_firstn : forall l i, Forall (fun x => 0 <= x) l -> Forall (fun x => 0 <= x) (rev (firstn i l)).
-  Proof.
-    intros l i H. rewrite Forall_forall in H. apply Forall_forall. intros x Hx. apply H. rewrite <- in_rev in Hx.
-    apply (in_firstn _ i x Hx).
-  Qed.
-
-  Lemma rev_firstn_length : forall (l : list Z) i, (i <= length l)%nat -> length (rev (firstn i l)) = i.
-  Proof. intros l i H. rewrite rev_length, firstn_length. lia. Qed.
-
-  Lemma cc_lower : forall s r c, (r + c = s)%nat -> (r <= m)%nat -> (c <= n)%nat -> lbc r c <= cc r c.
-  Proof.
-    induction s as [s IH] using lt_wf_ind. intros r c Hs Hr Hc.
-    destruct (cell_step r c Hr Hc) as [(-> & -> & E)|[(c' & -> & E)|[(r' & -> & E)|(r' & c' & -> & -> & E & L1 & L2)]]].
-    - rewrite E. unfold lbc, sum_smallest. simpl. lia.
-    - rewrite E. specialize (IH (r + c')%nat ltac:(lia) r c' eq_refl Hr ltac:(lia)).
-      pose proof (nth_nonneg rc c' Hrc) as P. unfold lbc in *.
-      destruct (Nat.leb_spec r (S c')), (Nat.leb_spec r c'); try lia.
-      + rewrite rev_firstn_S by (fold n; lia). replace (S c' - r)%nat with (S (c' - r)) by lia.
-        pose proof (ss_cons_S (nth c' rc 0) (rev (firstn c' rc)) (c' - r)). lia.
-      + assert (r = S c') by lia. subst r. replace (S c' - S c')%nat with O by lia.
-        unfold sum_smallest at 1. simpl.
-        pose proof (ss_nonneg (rev (firstn (S c') ic)) (S c' - c') (Forall_rev_firstn ic _ Hic)). lia.
-      + pose proof (ss_S_nonneg (rev (firstn r ic)) (r - S c') (Forall_rev_firstn ic _ Hic)) as Q.
-        replace (S (r - S c')) with (r - c')%nat in Q by lia. lia.
-    - rewrite E. specialize (IH (r' + c)%nat ltac:(lia) r' c eq_refl ltac:(lia) Hc).
-      pose proof (nth_nonneg ic r' Hic) as P. unfold lbc in *.
-      destruct (Nat.leb_spec (S r') c), (Nat.leb_spec r' c); try lia.
-      + pose proof (ss_S_nonneg (rev (firstn c rc)) (c - S r') (Forall_rev_firstn rc _ Hrc)) as Q.
-        replace (S (c - S r')) with (c - r')%nat in Q by lia. lia.
-      + assert (c = r') by lia. subst c. rewrite rev_firstn_S by (fold m; lia).
-        replace (S r' - r')%nat with 1%nat by lia. replace (r' - r')%nat with O in IH by lia.
-        pose proof (ss_cons_S (nth r' ic 0) (rev (firstn r' ic)) 0) as Q. unfold sum_smallest at 2 in Q. simpl in Q.
-        change (sum_smallest 0 (rev (firstn r' rc))) with 0 in IH. lia.
-      + rewrite rev_firstn_S by (fold m; lia). replace (S r' - c)%nat with (S (r' - c)) by lia.
-        pose proof (ss_cons_S (nth r' ic 0) (rev (firstn r' ic)) (r' - c)). lia.
-    - rewrite E. specialize (IH (r' + c')%nat ltac:(lia) r' c' eq_refl ltac:(lia) ltac:(lia)).
-      pose proof (mcv_nonneg r' c') as P. unfold lbc in *. cbn [Nat.leb]. replace (S c' - S r')%nat with (c' - r')%nat by lia.
-      replace (S r' - S c')%nat with (r' - c')%nat by lia.
-      destruct (Nat.leb_spec r' c').
-      + rewrite rev_firstn_S by (fold n; lia).
-        pose proof (ss_cons_le (nth c' rc 0) (rev (firstn c' rc)) (c' - r')
-                               ltac:(rewrite rev_firstn_length by (fold n; lia); lia)). lia.
-      + rewrite rev_firstn_S by (fold m; lia).
-        pose proof (ss_cons_le (nth r' ic 0) (rev (firstn r' ic)) (r' - c')
-                               ltac:(rewrite rev_firstn_length by (fold m; lia); lia)). lia.
-  Qed.
-
-  (* every cell but (0,0) has a predecessor on one of the two previous diagonals that costs no more *)
-  Lemma cc_pred : forall r c, (r <= m)%nat -> (c <= n)%nat -> (1 <= r + c)%nat ->
-    exists r' c', (r' <= m)%nat /\ (c' <= n)%nat /\ (r' + c' < r + c)%nat /\ (r + c <= r' + c' + 2)%nat /\ cc r' c' <= cc r c.
-  Proof.
-    intros r c Hr Hc H1.
-    destruct (cell_step r c Hr Hc) as [(-> & -> & E)|[(c' & -> & E)|[(r' & -> & E)|(r' & c' & -> & -> & E & L1 & L2)]]].
-    - lia.
-    - exists r, c'. pose proof (nth_nonneg rc c' Hrc). repeat split; lia.
-    - exists r', c. pose proof (nth_nonneg ic r' Hic). repeat split; lia.
-    - exists r', c'. pose proof (mcv_nonneg r' c'). repeat split; lia.
-  Qed.
-
-  (* minimum over a fringe diagonal / over the fringe and the previous one *)
-  Definition gmin (k : nat) : Z := zmin_list (map (fun p => cc (fst p) (snd p)) (diag m n k)).
-  Definition hmin (j : nat) : Z := Z.min (gmin j) (gmin (j - 1)).
-
-  Lemma gmin_le : forall r c, (r <= m)%nat -> (c <= n)%nat -> gmin (r + c) <= cc r c.
-  Proof.
-    intros r c Hr Hc. unfold gmin. apply zmin_list_le.
-    apply (in_map (fun p => cc (fst p) (snd p)) _ (r, c)). apply in_diag. lia.
-  Qed.
-
-  (* the fringe bound: every cell on the fringe diagonals or beyond costs at least the fringe minimum *)
-  Lemma fringe_min_le : forall j s r c, (r + c = s)%nat -> (r <= m)%nat -> (c <= n)%nat -> (j <= s + 1)%nat ->
-    hmin j <= cc r c.
-  Proof.
-    intros j. induction s as [s IH] using lt_wf_ind. intros r c Hs Hr Hc Hj. unfold hmin.
-    destruct (Nat.eq_dec s j) as [E|N1]; [subst j; rewrite <- Hs; pose proof (gmin_le r c Hr Hc); lia|].
-    destruct (Nat.eq_dec s (j - 1)) as [E|N2].
-    { rewrite <- E, <- Hs. pose proof (gmin_le r c Hr Hc). lia. }
-    destruct (cc_pred r c Hr Hc ltac:(lia)) as (r' & c' & Hr' & Hc' & L1 & L2 & Le).
-    specialize (IH (r' + c')%nat ltac:(lia) r' c' eq_refl Hr' Hc' ltac:(lia)). unfold hmin in IH. lia.
-  Qed.
-
-  (* it is non-decreasing along the diagonals *)
-  Lemma hmin_mono : forall j, (1 <= j)%nat -> (S j <= m + n)%nat -> hmin j <= hmin (S j).
-  Proof.
-    intros j H1 H2. unfold hmin at 2. replace (S j - 1)%nat with j by lia. apply Z.min_glb.
-    - unfold gmin. apply zmin_list_ge.
-      + intros E. apply map_eq_nil in E. revert E. apply diag_nonempty. fold m n. lia.
-      + intros y Hy. apply in_map_iff in Hy. destruct Hy as ([r c] & <- & Hi). apply in_diag in Hi. cbn [fst snd].
-        apply (fringe_min_le j (r + c) r c eq_refl); lia.
-    - unfold hmin. lia.
-  Qed.
-End Matrix.
-
-(* ---------------------------------------------------------------- updating matrices *)
-Lemma set_nth_length : forall {A} (l : list A) i x, length (set_nth i x l) = length l.
-Proof. induction l as [|y l IH]; intros [|i] x; simpl; auto. Qed.
-
-Lemma nth_set_nth_eq : forall {A} (l : list A) i x d, (i < length l)%nat -> nth i (set_nth i x l) d = x.
-Proof. induction l as [|y l IH]; intros [|i] x d H; simpl in *; try lia; auto. apply IH. lia. Qed.
-
-Lemma nth_set_nth_neq : forall {A} (l : list A) i j x d, i <> j -> nth j (set_nth i x l) d = nth j l d.
-Proof.
-  induction l as [|y l IH]; intros [|i] [|j] x d H; simpl; try reflexivity; try congruence. apply IH. congruence.
-Qed.
-
-Lemma nth_error_set_nth_eq : forall {A} (l : list A) i x, (i < length l)%nat -> nth_error (set_nth i x l) i = Some x.
-Proof. induction l as [|y l IH]; intros [|i] x H; simpl in *; try lia; auto. apply IH. lia. Qed.
-
-Lemma nth_error_set_nth_neq : forall {A} (l : list A) i j x, i <> j -> nth_error (set_nth i x l) j = nth_error l j.
-Proof.
-  induction l as [|y l IH]; intros [|i] [|j] x H; simpl; try reflexivity; try congruence. apply IH. congruence.
-Qed.
-
-Lemma set2_length : forall {A} (mx : list (list A)) r c x, length (set2 mx r c x) = length mx.
-Proof. intros. unfold set2. apply set_nth_length. Qed.
-
-Lemma set2_row : forall {A} (mx : list (list A)) r c x r', (r < length mx)%nat ->
-  nth r' (set2 mx r c x) [] = if Nat.eqb r' r then set_nth c x (nth r mx []) else nth r' mx [].
-Proof.
-  intros A mx r c x r' H. unfold set2. destruct (Nat.eqb_spec r' r) as [->|N].
-  - apply nth_set_nth_eq. exact H.
-  - apply nth_set_nth_neq. congruence.
-Qed.
-
-Lemma set2_row_length : forall {A} (mx : list (list A)) r c x r', (r < length mx)%nat ->
-  length (nth r' (set2 mx r c x) []) = length (nth r' mx []).
-Proof.
-  intros A mx r c x r' H. rewrite set2_row by exact H. destruct (Nat.eqb_spec r' r) as [->|N]; [apply set_nth_length|reflexivity].
-Qed.
-
-Lemma cell_at_set2 : forall mx r c x r' c', (r < length mx)%nat -> (c < length (nth r mx []))%nat ->
-  cell_at (set2 mx r c x) r' c' = if Nat.eqb r' r && Nat.eqb c' c then x else cell_at mx r' c'.
-Proof.
-  intros mx r c x r' c' H1 H2. unfold cell_at. rewrite set2_row by exact H1.
-  destruct (Nat.eqb_spec r' r) as [->|N]; [|reflexivity]. cbn [andb].
-  destruct (Nat.eqb_spec c' c) as [->|N2]; [apply nth_set_nth_eq; exact H2|apply nth_set_nth_neq; congruence].
-Qed.
-
-Lemma nth_error_set2 : forall {A} (mx : list (list A)) r c x r' c', (r < length mx)%nat -> (c < length (nth r mx []))%nat ->
-  nth_error (nth r' (set2 mx r c x) []) c' =
-  if Nat.eqb r' r && Nat.eqb c' c then Some x else nth_error (nth r' mx []) c'.
-Proof.
-  intros A mx r c x r' c' H1 H2. rewrite set2_row by exact H1.
-  destruct (Nat.eqb_spec r' r) as [->|N]; [|reflexivity]. cbn [andb].
-  destruct (Nat.eqb_spec c' c) as [->|N2]; [apply nth_error_set_nth_eq; exact H2|apply nth_error_set_nth_neq; congruence].
-Qed.
-
-Lemma nth_repeat' : forall {A} (x d : A) k i, (i < k)%nat -> nth i (repeat x k) d = x.
-Proof. intros A x d k. induction k as [|k IH]; intros [|i] H; simpl; try lia; auto. apply IH. lia. Qed.
-
-(* ---------------------------------------------------------------- the EditDistance machine *)
-Ltac rsimp := cbn [set_cost set_d set_kid set_done set_err e_K e_U e_rc e_ic e_err e_kids e_cost e_done e_d].
-Ltac rsimp_in H := cbn [set_cost set_d set_kid set_done set_err e_K e_U e_rc e_ic e_err e_kids e_cost e_done e_d] in H.
-
-Section EDContract.
-  Variable C : machine.
-  Variables (K U : Z) (rc ic : list Z) (mcs : list (list Z)).
-  Hypothesis Hd : dims_ok rc ic mcs.
-  Hypothesis Hrc : Forall (fun x => 0 <= x) rc.
-  Hypothesis Hic : Forall (fun x => 0 <= x) ic.
-  Hypothesis Hmc : Forall (Forall (fun x => 0 <= x)) mcs.
-  Let n := length rc.
-  Let m := length ic.
-  Hypothesis HK0 : 0 <= K.
-  Hypothesis HK : K <= lbc rc ic m n.
-  Hypothesis HU : zsum rc + zsum ic <= U.
-
-  Notation Mx := (matrix rc ic mcs).
-  Notation ccm := (cc rc ic mcs).
-  Notation hm := (hmin rc ic mcs).
-  Let F := ccm m n.
-
-  Lemma F_upper : F <= U.
-  Proof.
-    pose proof (cc_upper rc ic mcs Hd Hrc (m + n) m n eq_refl (le_n _) (le_n _)) as H.
-    unfold n, m in H. rewrite !firstn_all in H. unfold F, m, n. lia.
-  Qed.
-
-  Lemma F_lower : K <= F.
-  Proof. pose proof (cc_lower rc ic mcs Hd Hrc Hic Hmc (m + n) m n eq_refl (le_n _) (le_n _)). unfold F. fold m n in H. lia. Qed.
-
-  (* bounds() of a state whose matrix is not complete, as a function of the number of started diagonals *)
-  Definition babs (d : nat) : zr :=
-    if Nat.eqb n 0 && Nat.eqb m 0 && (K =? 0) then (0, 0)
-    else if Nat.leb d 1 || Nat.eqb m 0 then (K, U)
-    else (Z.max K (hm (d - 1)), U).
-
-  Lemma F_00 : n = O -> m = O -> F = 0.
-  Proof. intros E1 E2. unfold F. rewrite E1, E2. reflexivity. Qed.
-
-  Lemma babs_sound : forall d, (d <= m + n)%nat -> fst (babs d) <= F <= snd (babs d).
-  Proof.
-    intros d H. unfold babs. pose proof F_upper. pose proof F_lower.
-    destruct (Nat.eqb n 0 && Nat.eqb m 0 && (K =? 0)) eqn:E.
-    - apply andb_true_iff in E. destruct E as [E _]. apply andb_true_iff in E. destruct E as [E1 E2].
-      apply Nat.eqb_eq in E1. apply Nat.eqb_eq in E2. rewrite (F_00 E1 E2). simpl. lia.
-    - destruct (Nat.leb d 1 || Nat.eqb m 0) eqn:E2; cbn [fst snd]; [lia|].
-      apply orb_false_iff in E2. destruct E2 as [E2 E3]. apply Nat.leb_gt in E2.
-      pose proof (fringe_min_le rc ic mcs Hd Hrc Hic Hmc (d - 1) (m + n) m n eq_refl (le_n _) (le_n _)) as Q.
-      fold m n in Q. specialize (Q ltac:(lia)). fold F in Q. lia.
-  Qed.
-
-  Lemma babs_step : forall d, (S d <= m + n)%nat -> zcontains (babs d) (babs (S d)).
-  Proof.
-    intros d H. unfold babs.
-    destruct (Nat.eqb n 0 && Nat.eqb m 0 && (K =? 0)); [apply contains_refl|].
-    destruct (Nat.eqb m 0) eqn:Em; [rewrite !orb_true_r; apply contains_refl|]. rewrite !orb_false_r.
-    destruct (Nat.leb_spec (S d) 1).
-    - assert (d = O) by lia. subst d. cbn [Nat.leb]. apply contains_refl.
-    - destruct (Nat.leb_spec d 1).
-      + unfold zcontains. cbn [fst snd]. lia.
-      + unfold zcontains. cbn [fst snd]. replace (S d - 1)%nat with (S (d - 1)) by lia.
-        pose proof (hmin_mono rc ic mcs Hd Hrc Hic Hmc (d - 1) ltac:(lia)) as Q. fold m n in Q.
-        specialize (Q ltac:(lia)). lia.
-  Qed.
-
-  (* ---- invariants *)
-  Definition kids_inv (kids : list (list (St C))) : Prop :=
-    length kids = m /\ (forall r, (r < m)%nat -> length (nth r kids []) = n) /\
-    (forall r c x, (r < m)%nat -> (c < n)%nat -> nth_error (nth r kids []) c = Some x ->
-                   ContractV false C x (mcv mcs r c)).
-  Definition cdims (cost : list (list cell)) : Prop :=
-    length cost = S m /\ forall r, (r <= m)%nat -> length (nth r cost []) = S n.
-  (* a lower right cell that can still be tightened belongs to elements of positive remove + insert cost *)
-  Definition lastpos (kids : list (list (St C))) : Prop :=
-    (1 <= m)%nat -> (1 <= n)%nat -> forall x, nth_error (nth (m - 1) kids []) (n - 1) = Some x ->
-    ~ zdefinitive (bnd C x) -> 0 < nth (m - 1) ic 0 + nth (n - 1) rc 0.
-  Definition base (s : ed (St C)) : Prop :=
-    e_K s = K /\ e_U s = U /\ e_rc s = rc /\ e_ic s = ic /\ e_err s = false /\ kids_inv (e_kids s) /\ cdims (e_cost s).
-  Definition PInv (s : ed (St C)) (k : nat) (P : nat -> nat -> Prop) : Prop :=
-    base s /\ e_done s = None /\ lastpos (e_kids s) /\
-    forall r c, (r <= m)%nat -> (c <= n)%nat -> ((r + c < k)%nat \/ ((r + c = k)%nat /\ P r c)) ->
-                cell_at (e_cost s) r c = cell_at Mx r c.
-  Definition AInv (s : ed (St C)) : Prop :=
-    (e_d s <= m + n)%nat /\ PInv s (e_d s) (fun r c => (r + c = 0)%nat).
-  Definition EInv (s : ed (St C)) : Prop := AInv s \/ (base s /\ e_done s = Some F).
-
-  Lemma base_em : forall s, base s -> em s = m /\ en s = n.
-  Proof. intros s (_ & _ & E1 & E2 & _). unfold em, en. rewrite E1, E2. auto. Qed.
-
-  (* bounds() of an incomplete state *)
-  Lemma dmin_gmin : forall s k P j, PInv s k P -> (j < k)%nat -> dmin s j = gmin rc ic mcs j.
-  Proof.
-    intros s k P j (B & _ & _ & Hc) Hj. unfold dmin, gmin. destruct (base_em s B) as [-> ->]. fold m n.
-    f_equal. apply map_ext_in. intros [r c] Hi. apply in_diag in Hi. cbn [fst snd]. unfold cc.
-    rewrite Hc; [reflexivity|lia|lia|left; lia].
-  Qed.
-
-  Lemma ed_bnd_abs : forall s, AInv s -> ed_bnd s = babs (e_d s).
-  Proof.
-    intros s [Hle HP]. pose proof HP as (B & Dn & _ & _). destruct (base_em s B) as [Em En].
-    destruct B as (EK & EU & _). unfold ed_bnd, babs. rewrite Em, En, Dn, EK, EU.
-    destruct (Nat.eqb n 0 && Nat.eqb m 0 && (K =? 0)); [reflexivity|].
-    destruct (Nat.leb (e_d s) 1 || Nat.eqb m 0) eqn:E; [reflexivity|].
-    apply orb_false_iff in E. destruct E as [E _]. apply Nat.leb_gt in E.
-    rewrite (dmin_gmin s _ _ (e_d s - 1) HP) by lia. rewrite (dmin_gmin s _ _ (e_d s - 2) HP) by lia.
-    unfold hmin. replace (e_d s - 1 - 1)%nat with (e_d s - 2)%nat by lia. reflexivity.
-  Qed.
-
-  (* ---- _add_node for the border cells of diagonal k *)
-  Lemma bstep_step_cell : forall p w d, bstep p w d = step_cell p w d.
-  Proof. reflexivity. Qed.
-
-  Lemma add_border_spec : forall s k, AInv s -> e_d s = k -> (k <= m + n)%nat ->
-    PInv (add_border (set_d s (S k)) k) k (fun r c => r = O \/ c = O) /\
-    e_d (add_border (set_d s (S k)) k) = S k.
-  Proof.
-    intros s k [Hle (B & Dn & Lp & Hc)] Ek Hk. rewrite Ek in Hc.
-    destruct (base_em s B) as [Em En]. pose proof B as (EK & EU & Erc & Eic & Eerr & Kin & [Cl Cr]).
-    unfold add_border. change (em (set_d s (S k))) with (em s). change (en (set_d s (S k))) with (en s).
-    rewrite Em, En. change (e_cost (set_d s (S k))) with (e_cost s).
-    change (e_rc (set_d s (S k))) with (e_rc s). change (e_ic (set_d s (S k))) with (e_ic s). rewrite Erc, Eic.
-    set (s0 := set_d s (S k)).
-    set (s1 := if Nat.leb 1 k && Nat.leb k n
-               then set_cost s0 0 k (bstep (cell_at (e_cost s) 0 (k - 1)) (nth (k - 1) rc 0) DLeft) else s0).
-    assert (B1 : base s1 /\ e_done s1 = None /\ e_kids s1 = e_kids s /\ e_d s1 = S k /\
-                 forall r c, (r <= m)%nat -> (c <= n)%nat -> ((r + c < k)%nat \/ ((r + c = k)%nat /\ r = O)) ->
-                             cell_at (e_cost s1) r c = cell_at Mx r c).
-    { unfold s1, s0. clear s1 s0. destruct (Nat.leb 1 k && Nat.leb k n) eqn:E.
-      - apply andb_true_iff in E. destruct E as [E1 E2]. apply Nat.leb_le in E1. apply Nat.leb_le in E2.
-        rsimp.
-        split; [|split; [exact Dn|split; [reflexivity|split; [reflexivity|]]]].
-        + unfold base. rsimp. repeat split; try assumption; try apply Kin.
-          * rewrite set2_length. exact Cl.
-          * intros r Hr. rewrite set2_row_length by lia. apply Cr. exact Hr.
-        + intros r c Hr Hcn Hcase. rewrite cell_at_set2 by (try rewrite (Cr O); lia).
-          destruct (Nat.eqb_spec r 0) as [->|Nr]; cbn [andb].
-          * destruct (Nat.eqb_spec c k) as [->|Nc].
-            -- rewrite (Hc O (k - 1)%nat) by lia. rewrite bstep_step_cell.
-               replace k with (S (k - 1)) at 3 by lia. symmetry. apply (cell_0S rc ic mcs). fold n. lia.
-            -- apply Hc; try lia.
-          * apply Hc; try lia.
-      - split; [exact B|]. split; [exact Dn|]. split; [reflexivity|]. split; [reflexivity|].
-        intros r c Hr Hcn [L|[E0 ->]]; [apply Hc; auto|].
-        rsimp. simpl in E0. subst c.
-        apply andb_false_iff in E. destruct E as [E|E]; [apply Nat.leb_gt in E|apply Nat.leb_gt in E; lia].
-        assert (k = O) by lia. subst k. apply Hc; lia. }
-    destruct B1 as (B1 & Dn1 & Ek1 & Ed1 & Hc1). pose proof B1 as (_ & _ & _ & _ & _ & _ & [Cl1 Cr1]).
-    destruct (Nat.leb 1 k && Nat.leb k m) eqn:E.
-    - apply andb_true_iff in E. destruct E as [E1 E2]. apply Nat.leb_le in E1. apply Nat.leb_le in E2.
-      split; [|rsimp; exact Ed1].
-      split; [|split; [exact Dn1|split; [rsimp; rewrite Ek1; exact Lp|]]].
-      + destruct B1 as (A1 & A2 & A3 & A4 & A5 & A6 & A7).
-        unfold base. rsimp. repeat split; try assumption; try apply A6.
-        * rewrite set2_length. exact Cl1.
-        * intros r Hr. rewrite set2_row_length by lia. apply Cr1. exact Hr.
-      + intros r c Hr Hcn Hcase. rsimp. rewrite cell_at_set2 by (try rewrite (Cr1 k); lia).
-        destruct (Nat.eqb_spec r k) as [->|Nr]; cbn [andb].
-        * destruct (Nat.eqb_spec c 0) as [->|Nc].
-          -- rewrite (Hc1 (k - 1)%nat O) by lia. rewrite bstep_step_cell.
-             replace k with (S (k - 1)) at 3 by lia. symmetry. apply (cell_S0 rc ic mcs Hd). fold m. lia.
-          -- apply Hc1; try lia.
-        * apply Hc1; lia.
-    - split; [|exact Ed1]. split; [exact B1|]. split; [exact Dn1|]. split; [rewrite Ek1; exact Lp|].
-      intros r c Hr Hcn [L|[E0 [-> | ->]]]; [apply Hc1; auto|apply Hc1; auto|].
-      apply andb_false_iff in E. destruct E as [E|E]; [apply Nat.leb_gt in E|apply Nat.leb_gt in E; lia].
-      assert (k = O) by lia. subst k. apply Hc1; lia.
-  Qed.
-
-  (* ---- one inner cell of the fringe *)
-  Lemma kid_lookup : forall s r c, base s -> (r < m)%nat -> (c < n)%nat ->
-    exists x, kid_at s r c = Some x /\ ContractV false C x (mcv mcs r c).
-  Proof.
-    intros s r c (_ & _ & _ & _ & _ & (Kl & Kr & Kc) & _) Hr Hc. unfold kid_at.
-    destruct (nth_error (nth r (e_kids s) []) c) as [x|] eqn:E.
-    - exists x. split; [reflexivity|]. apply (Kc r c x Hr Hc E).
-    - apply nth_error_None in E. rewrite (Kr r Hr) in E. lia.
-  Qed.
-
-  Lemma kids_inv_set : forall kids r c x, kids_inv kids -> (r < m)%nat -> (c < n)%nat ->
-    ContractV false C x (mcv mcs r c) -> kids_inv (set2 kids r c x).
-  Proof.
-    intros kids r c x (Kl & Kr & Kc) Hr Hc Hx. split; [rewrite set2_length; exact Kl|]. split.
-    - intros r' Hr'. rewrite set2_row_length by lia. apply Kr. exact Hr'.
-    - intros r' c' y Hr' Hc' Hy. rewrite nth_error_set2 in Hy by (try rewrite (Kr r Hr); lia).
-      destruct (Nat.eqb_spec r' r) as [->|N1]; cbn [andb] in Hy; [|apply (Kc r' c' y Hr' Hc' Hy)].
-      destruct (Nat.eqb_spec c' c) as [->|N2]; [injection Hy as <-; exact Hx|apply (Kc r c' y Hr' Hc' Hy)].
-  Qed.
-
-  Lemma cell_value_correct : forall s k P r c v, PInv s k P -> (r + c = k)%nat -> (1 <= r <= m)%nat -> (1 <= c <= n)%nat ->
-    v = mcv mcs (r - 1) (c - 1) -> cell_value s r c v = cell_at Mx r c.
-  Proof.
-    intros s k P r c v (B & _ & _ & Hc) Hk Hr Hcn ->. unfold cell_value.
-    destruct B as (_ & _ & -> & -> & _).
-    rewrite !Hc by (try lia; left; lia).
-    destruct r as [|r]; [lia|]. destruct c as [|c]; [lia|].
-    replace (S r - 1)%nat with r by lia. replace (S c - 1)%nat with c by lia.
-    symmetry. apply (cell_SS rc ic mcs Hd); [fold m|fold n]; lia.
-  Qed.
-
-  Lemma proc_cell_spec : forall s k P r c, PInv s k P -> (r + c = k)%nat -> (1 <= r <= m)%nat -> (1 <= c <= n)%nat ->
-    (k < m + n)%nat ->
-    PInv (proc_cell (bnd C) (tig C) s r c) k (fun r' c' => P r' c' \/ (r' = r /\ c' = c)) /\
-    e_d (proc_cell (bnd C) (tig C) s r c) = e_d s.
-  Proof.
-    intros s k P r c HP Hk Hr Hcn Hlt. pose proof HP as (B & Dn & Lp & Hc).
-    destruct (kid_lookup s (r - 1) (c - 1) B ltac:(lia) ltac:(lia)) as (x & Ex & Cx).
-    unfold proc_cell. rewrite Ex.
-    destruct (run_fix_ok false C (fix_fuel (bnd C) x) x _ Cx ltac:(unfold fix_fuel; lia)) as (x' & Er & Cx' & Bx').
-    rewrite Er. assert (D : zdefb (bnd C x') = true) by (rewrite Bx'; unfold zdefb; simpl; apply Z.eqb_refl).
-    rewrite D. rewrite Bx'. cbn [fst].
-    rewrite (cell_value_correct s k P r c _ HP Hk Hr Hcn eq_refl).
-    pose proof B as (EK & EU & Erc & Eic & Eerr & Kin & [Cl Cr]). pose proof Kin as (Kl & Kr & Kc).
-    split; [|reflexivity]. split; [|split; [exact Dn|split]].
-    - unfold base. rsimp. repeat split; try assumption.
-      + rewrite set2_length. exact Kl.
-      + intros r' Hr'. rewrite set2_row_length by lia. apply Kr. exact Hr'.
-      + apply (kids_inv_set (e_kids s) (r - 1) (c - 1) x' Kin ltac:(lia) ltac:(lia) Cx').
-      + rewrite set2_length. exact Cl.
-      + intros r' Hr'. rewrite set2_row_length by lia. apply Cr. exact Hr'.
-    - rsimp. intros Hm Hn y Hy. rewrite nth_error_set2 in Hy by (try rewrite (Kr (r - 1)%nat); lia).
-      assert (Ne : Nat.eqb (m - 1) (r - 1) && Nat.eqb (n - 1) (c - 1) = false).
-      { apply andb_false_iff. destruct (Nat.eqb_spec (m - 1) (r - 1)); [|left; reflexivity].
-        destruct (Nat.eqb_spec (n - 1) (c - 1)); [exfalso; lia|right; reflexivity]. }
-      rewrite Ne in Hy. apply (Lp Hm Hn y Hy).
-    - rsimp. intros r' c' Hr' Hc' Hcase. rewrite cell_at_set2 by (try rewrite (Cr r); lia).
-      destruct (Nat.eqb_spec r' r) as [->|N1]; cbn [andb].
-      + destruct (Nat.eqb_spec c' c) as [->|N2]; [reflexivity|]. apply Hc; try lia; tauto.
-      + apply Hc; try lia; tauto.
-  Qed.
-
-  Lemma PInv_weaken : forall s k (P Q : nat -> nat -> Prop), PInv s k P ->
-    (forall r c, (r <= m)%nat -> (c <= n)%nat -> (r + c = k)%nat -> Q r c -> P r c) -> PInv s k Q.
-  Proof.
-    intros s k P Q (B & Dn & Lp & Hc) Himp. split; [exact B|]. split; [exact Dn|]. split; [exact Lp|].
-    intros r c Hr Hcn [L|[E Hq]]; apply Hc; auto.
-  Qed.
-
-  (* ---- the whole fringe diagonal *)
-  Lemma proc_diag_fold : forall l s k P, PInv s k P -> (k < m + n)%nat ->
-    (forall p, In p l -> (fst p + snd p = k)%nat /\ (fst p <= m)%nat /\ (snd p <= n)%nat) ->
-    let s' := fold_left (fun s p => if Nat.leb 1 (fst p) && Nat.leb 1 (snd p)
-                                    then proc_cell (bnd C) (tig C) s (fst p) (snd p) else s) l s in
-    PInv s' k (fun r c => P r c \/ (In (r, c) l /\ (1 <= r)%nat /\ (1 <= c)%nat)) /\ e_d s' = e_d s.
-  Proof.
-    induction l as [|[r0 c0] l IH]; intros s k P HP Hk Hl; cbn zeta.
-    - cbn [fold_left]. split; [|reflexivity]. apply (PInv_weaken s k P); [exact HP|]. intros r c _ _ _ [H|[[] _]]. exact H.
-    - cbn [fold_left fst snd]. destruct (Hl (r0, c0) (or_introl eq_refl)) as (E0 & Hr0 & Hc0). cbn [fst snd] in *.
-      assert (Hl' : forall p, In p l -> (fst p + snd p = k)%nat /\ (fst p <= m)%nat /\ (snd p <= n)%nat)
-        by (intros p Hp; apply Hl; right; exact Hp).
-      destruct (Nat.leb 1 r0 && Nat.leb 1 c0) eqn:E.
-      + apply andb_true_iff in E. destruct E as [E1 E2]. apply Nat.leb_le in E1. apply Nat.leb_le in E2.
-        destruct (proc_cell_spec s k P r0 c0 HP E0 ltac:(lia) ltac:(lia) Hk) as [HP1 Ed1].
-        destruct (IH _ k _ HP1 Hk Hl') as [HP2 Ed2]. cbn zeta in HP2, Ed2. split; [|congruence].
-        apply (PInv_weaken _ k _ _ HP2). intros r c _ _ _ [H|[[H|H] [H1 H2]]].
-        * left. left. exact H.
-        * injection H as <- <-. left. right. auto.
-        * right. auto.
-      + destruct (IH _ k _ HP Hk Hl') as [HP2 Ed2]. cbn zeta in HP2, Ed2. split; [|exact Ed2].
-        apply (PInv_weaken _ k _ _ HP2). intros r c _ _ _ [H|[[H|H] [H1 H2]]].
-        * left. exact H.
-        * injection H as <- <-. apply andb_false_iff in E. destruct E as [E|E]; apply Nat.leb_gt in E; lia.
-        * right. auto.
-  Qed.
-
-  (* one iteration of the loop: diagonal k becomes the fringe and is processed *)
-  Lemma diag_step : forall s k, AInv s -> e_d s = k -> (k < m + n)%nat ->
-    let s1 := add_border (set_d s (S k)) k in
-    let s2 := if Nat.eqb k 0 then s1 else proc_diag (bnd C) (tig C) s1 k in
-    AInv s2 /\ e_d s2 = S k.
-  Proof.
-    intros s k HA Ek Hk. cbn zeta.
-    destruct (add_border_spec s k HA Ek ltac:(lia)) as [HP1 Ed1].
-    set (s1 := add_border (set_d s (S k)) k) in *.
-    assert (Adv : forall s2 (Q : nat -> nat -> Prop), PInv s2 k Q -> e_d s2 = S k ->
-                  (forall r c, (r <= m)%nat -> (c <= n)%nat -> (r + c = k)%nat -> Q r c) -> AInv s2 /\ e_d s2 = S k).
-    { intros s2 Q (B & Dn & Lp & Hc) Ed HQ. split; [|exact Ed]. split; [lia|]. rewrite Ed.
-      split; [exact B|]. split; [exact Dn|]. split; [exact Lp|].
-      intros r c Hr Hcn [L|[E E0]]; [|lia].
-      destruct (Nat.eq_dec (r + c) k) as [Eq|Ne]; apply Hc; auto. left. lia. }
-    destruct (Nat.eqb_spec k 0) as [->|Nk].
-    - apply (Adv s1 _ HP1 Ed1). intros r c _ _ E. left. lia.
-    - unfold proc_diag. pose proof HP1 as (B1 & _). destruct (base_em s1 B1) as [-> ->].
-      destruct (proc_diag_fold (diag m n k) s1 k _ HP1 Hk) as [HP2 Ed2].
-      { intros [r c] Hi. apply in_diag in Hi. cbn [fst snd]. lia. }
-      cbn zeta in HP2, Ed2. apply (Adv _ _ HP2); [congruence|].
-      intros r c Hr Hcn E. destruct r as [|r]; [left; left; reflexivity|]. destruct c as [|c]; [left; right; reflexivity|].
-      right. split; [apply in_diag; lia|lia].
-  Qed.
-
-  (* ---- completion *)
-  Lemma lbc_diag : forall r c, (r < m)%nat -> (c < n)%nat -> lbc rc ic (S r) (S c) <= lbc rc ic r c.
-  Proof.
-    intros r c Hr Hc. unfold lbc. cbn [Nat.leb]. replace (S c - S r)%nat with (c - r)%nat by lia.
-    replace (S r - S c)%nat with (r - c)%nat by lia. destruct (Nat.leb_spec r c).
-    - rewrite rev_firstn_S by (fold n; lia). apply ss_cons_le. rewrite rev_length, firstn_length. fold n. lia.
-    - rewrite rev_firstn_S by (fold m; lia). apply ss_cons_le. rewrite rev_length, firstn_length. fold m. lia.
-  Qed.
-
-  Lemma babs_ne_F : forall d, (1 <= m)%nat -> (1 <= n)%nat -> 0 < nth (m - 1) ic 0 + nth (n - 1) rc 0 ->
-    (d <= m + n)%nat -> babs d <> (F, F).
-  Proof.
-    intros d Hm Hn Hpos Hdle E.
-    pose proof (cc_upper rc ic mcs Hd Hrc (m + n) m n eq_refl (le_n _) (le_n _)) as Up.
-    pose proof (cc_upper rc ic mcs Hd Hrc (m - 1 + (n - 1)) (m - 1) (n - 1) eq_refl ltac:(fold m; lia) ltac:(fold n; lia)) as Up1.
-    pose proof (cc_lower rc ic mcs Hd Hrc Hic Hmc (m - 1 + (n - 1)) (m - 1) (n - 1) eq_refl ltac:(fold m; lia) ltac:(fold n; lia)) as Lo1.
-    pose proof (lbc_diag (m - 1) (n - 1) ltac:(lia) ltac:(lia)) as Ld.
-    replace (S (m - 1)) with m in Ld by lia. replace (S (n - 1)) with n in Ld by lia.
-    pose proof (zsum_firstn_S rc (n - 1) ltac:(fold n; lia)) as S1. pose proof (zsum_firstn_S ic (m - 1) ltac:(fold m; lia)) as S2.
-    replace (S (n - 1)) with n in S1 by lia. replace (S (m - 1)) with m in S2 by lia.
-    unfold n in S1 at 1. unfold m in S2 at 1. unfold n, m in Up. rewrite !firstn_all in *. fold m n in Up. fold F in Up.
-    unfold babs in E.
-    assert (Em : Nat.eqb m 0 = false) by (apply Nat.eqb_neq; lia). rewrite Em, andb_false_r, orb_false_r in E. cbn [andb] in E.
-    destruct (Nat.leb d 1) eqn:Ed; injection E as E1 E2.
-    - lia.
-    - apply Nat.leb_gt in Ed.
-      pose proof (fringe_min_le rc ic mcs Hd Hrc Hic Hmc (d - 1) (m - 1 + (n - 1)) (m - 1) (n - 1) eq_refl
-                                ltac:(fold m; lia) ltac:(fold n; lia) ltac:(lia)) as Q.
-      lia.
-  Qed.
-
-  Lemma ed_bnd_done : forall s, base s -> e_done s = Some F -> (1 <= m + n)%nat -> ed_bnd s = (F, F).
-  Proof.
-    intros s B Dn H. unfold ed_bnd. destruct (base_em s B) as [-> ->]. rewrite Dn.
-    destruct (Nat.eqb_spec n 0), (Nat.eqb_spec m 0); try reflexivity. lia.
-  Qed.
-
-  Lemma finalize_spec : forall s d0, AInv s -> e_d s = (m + n)%nat -> (1 <= m + n)%nat -> (d0 <= m + n)%nat ->
-    let res := finalize (bnd C) (tig C) (babs d0) s in
-    base (fst res) /\ e_done (fst res) = Some F /\
-    (snd res = true -> (F, F) <> babs d0) /\ (snd res = false -> (F, F) = babs d0).
-  Proof.
-    intros s d0 HA Ed H1 Hd0. cbn zeta. pose proof HA as [_ (B0 & _)]. destruct (base_em s B0) as [Em En].
-    unfold finalize. rewrite Em, En.
-    destruct (add_border_spec s (m + n) HA Ed (le_n _)) as [HP1 Ed1].
-    set (s1 := add_border (set_d s (S (m + n))) (m + n)) in *.
-    pose proof HP1 as (B1 & Dn1 & Lp1 & Hc1).
-    pose proof (babs_sound d0 Hd0) as Snd.
-    assert (Fin : forall ret, (ret = true -> (F, F) <> babs d0) ->
-              ((ret || tighter (F, F) (babs d0)) = true -> (F, F) <> babs d0) /\
-              ((ret || tighter (F, F) (babs d0)) = false -> (F, F) = babs d0)).
-    { intros ret Hret. split.
-      - intros R. apply orb_true_iff in R. destruct R as [R|R]; [apply Hret; exact R|].
-        apply tighter_spec in R. cbn [fst snd] in R. intros E. rewrite <- E in R. cbn [fst snd] in R. lia.
-      - intros R. apply orb_false_iff in R. destruct R as [_ R].
-        apply (contained_not_tighter_eq (babs d0) (F, F)); [split; cbn [fst snd]; lia|exact R]. }
-    destruct (Nat.leb 1 m && Nat.leb 1 n) eqn:E.
-    - apply andb_true_iff in E. destruct E as [E1 E2]. apply Nat.leb_le in E1. apply Nat.leb_le in E2.
-      destruct (kid_lookup s1 (m - 1) (n - 1) B1 ltac:(lia) ltac:(lia)) as (x & Ex & Cx). rewrite Ex.
-      set (x1 := if zdefb (bnd C x) then x else fst (tig C x)).
-      set (ret := if zdefb (bnd C x) then false else snd (tig C x)).
-      assert (Cx1 : ContractV false C x1 (mcv mcs (m - 1) (n - 1))).
-      { unfold x1. destruct (zdefb (bnd C x)); [exact Cx|apply cv_next; exact Cx]. }
-      destruct (run_def_ok false C (fix_fuel (bnd C) x1) x1 _ Cx1 ltac:(unfold fix_fuel; lia)) as (x2 & Er & Cx2 & Bx2).
-      rewrite Er. assert (D : zdefb (bnd C x2) = true) by (rewrite Bx2; unfold zdefb; simpl; apply Z.eqb_refl).
-      rewrite D, Bx2. cbn [fst snd].
-      change (cell_value (set_kid s1 (m - 1) (n - 1) x2) m n (mcv mcs (m - 1) (n - 1)))
-        with (cell_value s1 m n (mcv mcs (m - 1) (n - 1))).
-      rewrite (cell_value_correct s1 (m + n) _ m n _ HP1 eq_refl ltac:(lia) ltac:(lia) eq_refl).
-      fold (ccm m n). fold F.
-      pose proof B1 as (EK & EU & Erc & Eic & Eerr & Kin & [Cl Cr]). pose proof Kin as (Kl & Kr & Kc).
-      split; [|split; [reflexivity|]].
-      + unfold base. rsimp. repeat split; try assumption.
-        * rewrite set2_length. exact Kl.
-        * intros r' Hr'. rewrite set2_row_length by lia. apply Kr. exact Hr'.
-        * apply (kids_inv_set (e_kids s1) (m - 1) (n - 1) x2 Kin ltac:(lia) ltac:(lia) Cx2).
-        * rewrite set2_length. exact Cl.
-        * intros r' Hr'. rewrite set2_row_length by lia. apply Cr. exact Hr'.
-      + apply Fin. intros R. unfold ret in R. destruct (zdefb (bnd C x)) eqn:Dx; [discriminate|].
-        apply zdefb_false in Dx. unfold kid_at in Ex.
-        pose proof (Lp1 E1 E2 x Ex Dx) as Pos. intros Eq. apply (babs_ne_F d0 E1 E2 Pos Hd0). symmetry. exact Eq.
-    - cbn [fst snd]. rewrite (Hc1 m n (le_n _) (le_n _)).
-      2:{ right. split; [reflexivity|]. apply andb_false_iff in E. destruct E as [E|E]; apply Nat.leb_gt in E; lia. }
-      fold (ccm m n). fold F. split; [|split; [reflexivity|]].
-      + destruct B1 as (A1 & A2 & A3 & A4 & A5 & A6 & A7). unfold base. rsimp. repeat split; try assumption; apply A6 || apply A7.
-      + specialize (Fin false ltac:(discriminate)). cbn [orb] in Fin. exact Fin.
-  Qed.
-
-  (* ---- the loop of tighten_bounds() *)
-  Lemma ed_loop_spec : forall fuel s d0, AInv s -> (d0 <= e_d s)%nat -> (1 <= m + n)%nat -> ed_bnd s = babs d0 ->
-    (m + n - e_d s < fuel)%nat ->
-    let res := ed_loop (bnd C) (tig C) fuel (babs d0) s in
-    EInv (fst res) /\ zcontains (babs d0) (ed_bnd (fst res)) /\
-    (snd res = true -> ed_bnd (fst res) <> babs d0) /\
-    (snd res = false -> zdefinitive (ed_bnd (fst res)) /\ ed_bnd (fst res) = babs d0).
-  Proof.
-    induction fuel as [|fuel IH]; intros s d0 HA Hd0 H1 Hb Hf; [lia|]. cbn zeta.
-    pose proof HA as [Hle (B0 & _)]. destruct (base_em s B0) as [Em En].
-    cbn [ed_loop]. rewrite Em, En.
-    destruct (Nat.leb_spec (m + n) (e_d s)) as [L|L].
-    - assert (Ed : e_d s = (m + n)%nat) by lia.
-      destruct (finalize_spec s d0 HA Ed H1 ltac:(lia)) as (B & Dn & Rt & Rf). cbn zeta in *.
-      set (res := finalize (bnd C) (tig C) (babs d0) s) in *.
-      rewrite (ed_bnd_done (fst res) B Dn H1). pose proof (babs_sound d0 ltac:(lia)) as Snd.
-      split; [right; split; assumption|]. split; [split; cbn [fst snd]; lia|]. split; [exact Rt|].
-      intros R. split; [reflexivity|apply Rf; exact R].
-    - destruct (diag_step s (e_d s) HA eq_refl L) as [HA2 Ed2]. cbn zeta in HA2, Ed2.
-      set (s2 := if Nat.eqb (e_d s) 0 then add_border (set_d s (S (e_d s))) (e_d s)
-                 else proc_diag (bnd C) (tig C) (add_border (set_d s (S (e_d s))) (e_d s)) (e_d s)) in *.
-      pose proof HA2 as [_ ((_ & _ & _ & _ & Eerr & _) & _)]. rewrite Eerr.
-      assert (Eb : babs d0 = babs (e_d s)) by (rewrite <- Hb; apply ed_bnd_abs; exact HA).
-      pose proof (babs_step (e_d s) ltac:(lia)) as Cn. rewrite <- Eb in Cn.
-      pose proof (ed_bnd_abs s2 HA2) as Eb2. rewrite Ed2 in Eb2. rewrite <- Eb2 in Cn.
-      destruct (tighter (ed_bnd s2) (babs d0)) eqn:T.
-      + cbn [fst snd]. split; [left; exact HA2|]. split; [exact Cn|]. split; [|discriminate].
-        intros _ E. rewrite E in T. unfold tighter in T. apply orb_true_iff in T. destruct T as [T|T]; apply Z.ltb_lt in T; lia.
-      + apply IH; try assumption; try lia. apply contained_not_tighter_eq; assumption.
-  Qed.
-
-  Lemma K_zero_when_empty : n = O -> m = O -> K = 0.
-  Proof.
-    intros E1 E2. pose proof HK as H. rewrite E1, E2 in H. unfold lbc, sum_smallest in H. simpl in H. lia.
-  Qed.
-
-  Lemma ed_step : forall s, EInv s -> step_ok true (edM C) EInv F s.
-  Proof.
-    intros s HE. unfold step_ok. cbn [edM St bnd tig]. unfold ed_tig.
-    assert (B : base s) by (destruct HE as [[_ (B & _)]|[B _]]; exact B).
-    destruct (base_em s B) as [Em En]. rewrite Em, En.
-    destruct (Nat.eqb n 0 && Nat.eqb m 0) eqn:E0.
-    - apply andb_true_iff in E0. destruct E0 as [E1 E2]. apply Nat.eqb_eq in E1. apply Nat.eqb_eq in E2.
-      cbn [fst snd].
-      assert (Eb : ed_bnd s = (0, 0)).
-      { unfold ed_bnd. rewrite Em, En, E1, E2. destruct B as (-> & _). rewrite (K_zero_when_empty E1 E2). reflexivity. }
-      rewrite Eb, (F_00 E1 E2). cbn [fst snd].
-      split; [exact HE|]. split; [lia|]. split; [apply contains_refl|]. split; [discriminate|].
-      intros _. split; reflexivity.
-    - assert (H1 : (1 <= m + n)%nat).
-      { apply andb_false_iff in E0. destruct E0 as [E|E]; apply Nat.eqb_neq in E; lia. }
-      destruct HE as [HA|[_ Dn]].
-      + pose proof HA as [Hle (_ & Dn & _)]. rewrite Dn.
-        destruct B as (_ & _ & _ & _ & Eerr & _). rewrite Eerr.
-        pose proof (ed_bnd_abs s HA) as Eb. rewrite Eb.
-        destruct (ed_loop_spec (S (m + n)) s (e_d s) HA (le_n _) H1 Eb ltac:(lia)) as (I1 & I2 & I3 & I4).
-        cbn zeta in *. pose proof (babs_sound (e_d s) Hle) as Snd.
-        split; [exact I1|]. split; [exact Snd|]. split; [exact I2|]. split; [exact I3|].
-        intros R. destruct (I4 R) as [D Eq]. split; [exact D|]. intros _. exact Eq.
-      + rewrite Dn. cbn [fst snd]. rewrite (ed_bnd_done s B Dn H1). cbn [fst snd].
-        split; [right; split; assumption|]. split; [lia|]. split; [apply contains_refl|]. split; [discriminate|].
-        intros _. split; reflexivity.
-  Qed.
-
-  (* C04 for EditDistance: from any state of the invariant (in particular the initial one) the STRICT contract holds,
-     with the lower right cell of the final cost matrix as the final value *)
-  Theorem ed_contract_inv : forall s, EInv s -> ContractV true (edM C) s F.
-  Proof. intros s H. exists EInv. split; [exact H|]. apply ed_step. Qed.
-End EDContract.
-
-(* ---------------------------------------------------------------- EditDistance.__init__ *)
-Lemma ss_perm : forall j l l', Permutation l l' -> sum_smallest j l = sum_smallest j l'.
-Proof. intros j l l' H. unfold sum_smallest. rewrite (zsort_perm l l' H). reflexivity. Qed.
-
-Lemma ss_app_le : forall e l j, (j <= length l)%nat -> sum_smallest j (e ++ l) <= sum_smallest j l.
-Proof.
-  induction e as [|x e IH]; intros l j H; [simpl; lia|].
-  cbn [app]. pose proof (ss_cons_le x (e ++ l) j ltac:(rewrite app_length; lia)). specialize (IH l j H). lia.
-Qed.
-
-Lemma ss_middle : forall p q l j, (p + q <= length l)%nat -> (j <= length (middle p q l))%nat ->
-  sum_smallest j l <= sum_smallest j (rev (middle p q l)).
-Proof.
-  intros p q l j H Hj. rewrite (middle_split p q l H) at 1.
-  rewrite (ss_perm j _ ((firstn p l ++ skipn (length l - q) l) ++ rev (middle p q l))).
-  - apply ss_app_le. rewrite rev_length. exact Hj.
-  - rewrite <- app_assoc. apply Permutation_app_head. rewrite Permutation_app_comm. apply Permutation_app_head.
-    apply Permutation_rev.
-Qed.
-
-Lemma zsum_middle_le : forall p q l, (p + q <= length l)%nat -> Forall (fun x => 0 <= x) l -> zsum (middle p q l) <= zsum l.
-Proof.
-  intros p q l H Hl. rewrite (middle_split p q l H) at 2. rewrite !zsum_app.
-  assert (A : 0 <= zsum (firstn p l)).
-  { apply zsum_nonneg. rewrite Forall_forall in *. intros x Hx. apply Hl. apply (in_firstn _ _ _ Hx). }
-  assert (B : 0 <= zsum (skipn (length l - q) l)).
-  { apply zsum_nonneg. rewrite Forall_forall in *. intros x Hx. apply Hl.
-    rewrite <- (firstn_skipn (length l - q) l). apply in_or_app. right. exact Hx. }
-  lia.
-Qed.
-
-Lemma Forall_middle : forall (P : Z -> Prop) p q l, Forall P l -> Forall P (middle p q l).
-Proof.
-  intros P p q l H. rewrite Forall_forall in *. intros x Hx. apply H. unfold middle in Hx.
-  apply in_firstn in Hx. rewrite <- (firstn_skipn p l). apply in_or_app. right. exact Hx.
-Qed.
-
-(* the final value of a child: what `while x.tighten_bounds(): pass` ends on *)
-Definition finv (C : machine) (x : St C) : Z :=
-  match run_fix (tig C) (fix_fuel (bnd C) x) x with Some x' => fst (bnd C x') | None => 0 end.
-
-Lemma finv_spec : forall k C x v, ContractV k C x v -> finv C x = v.
-Proof.
-  intros k C x v H. unfold finv.
-  destruct (run_fix_ok k C (fix_fuel (bnd C) x) x v H ltac:(unfold fix_fuel; lia)) as (x' & -> & _ & ->). reflexivity.
-Qed.
-
-Definition kid_ok (C : machine) (x : St C) : Prop := ContractW C x /\ 0 <= fst (bnd C x).
-
-Lemma kid_ok_spec : forall C x, kid_ok C x -> ContractV false C x (finv C x) /\ 0 <= finv C x.
-Proof.
-  intros C x [[v H] L]. rewrite (finv_spec _ _ _ _ H). split; [exact H|]. pose proof (cv_sound _ _ _ _ H). lia.
-Qed.
-
-Lemma nth_nth_error : forall {A} (l : list A) i x d, nth_error l i = Some x -> nth i l d = x.
-Proof. induction l as [|y l IH]; intros [|i] x d H; simpl in *; try discriminate; [congruence|apply IH; exact H]. Qed.
-
-Theorem ed_init_contract : forall C frc fic p q (kids : list (list (St C))),
-  let rc := middle p q frc in
-  let ic := middle p q fic in
-  (p + q <= length frc)%nat -> (p + q <= length fic)%nat ->
-  Forall (fun x => 0 <= x) frc -> Forall (fun x => 0 <= x) fic ->
-  length kids = length ic -> Forall (fun row => length row = length rc) kids ->
-  Forall (Forall (kid_ok C)) kids ->
-  ((1 <= length ic)%nat -> (1 <= length rc)%nat ->
-   forall x, nth_error (nth (length ic - 1) kids []) (length rc - 1) = Some x -> ~ zdefinitive (bnd C x) ->
-             0 < nth (length ic - 1) ic 0 + nth (length rc - 1) rc 0) ->
-  ContractV true (edM C) (ed_init frc fic p q kids)
-            (cc rc ic (map (map (finv C)) kids) (length ic) (length rc)).
-Proof.
-  intros C frc fic p q kids rc ic Hp1 Hp2 Hf1 Hf2 Kl Kr Kok Hpos.
-  set (mcs := map (map (finv C)) kids).
-  assert (Hd : dims_ok rc ic mcs).
-  { split; [unfold mcs; rewrite map_length; exact Kl|]. unfold mcs. apply Forall_forall. intros row Hrow.
-    apply in_map_iff in Hrow. destruct Hrow as (krow & <- & Hk). rewrite map_length.
-    rewrite Forall_forall in Kr. apply Kr. exact Hk. }
-  assert (Hrc : Forall (fun x => 0 <= x) rc) by (apply Forall_middle; exact Hf1).
-  assert (Hic : Forall (fun x => 0 <= x) ic) by (apply Forall_middle; exact Hf2).
-  assert (Hmc : Forall (Forall (fun x => 0 <= x)) mcs).
-  { unfold mcs. apply Forall_forall. intros row Hrow. apply in_map_iff in Hrow. destruct Hrow as (krow & <- & Hk).
-    apply Forall_forall. intros v Hv. apply in_map_iff in Hv. destruct Hv as (x & <- & Hx).
-    rewrite Forall_forall in Kok. specialize (Kok krow Hk). rewrite Forall_forall in Kok.
-    apply (kid_ok_spec C x (Kok x Hx)). }
-  assert (Ln : length rc = (length frc - p - q)%nat) by (apply middle_length; exact Hp1).
-  assert (Lm : length ic = (length fic - p - q)%nat) by (apply middle_length; exact Hp2).
-  assert (HK0 : 0 <= ed_constant_cost frc fic).
-  { unfold ed_constant_cost. destruct (Nat.ltb (length frc) (length fic)); [apply ss_nonneg; exact Hf2|].
-    destruct (Nat.ltb (length fic) (length frc)); [apply ss_nonneg; exact Hf1|lia]. }
-  assert (HK : ed_constant_cost frc fic <= lbc rc ic (length ic) (length rc)).
-  { unfold ed_constant_cost, lbc. rewrite !firstn_all.
-    destruct (Nat.ltb_spec (length frc) (length fic)) as [L1|L1].
-    - destruct (Nat.leb_spec (length ic) (length rc)); [lia|].
-      replace (length fic - length frc)%nat with (length ic - length rc)%nat by lia.
-      apply ss_middle; [exact Hp2|fold ic; lia].
-    - destruct (Nat.ltb_spec (length fic) (length frc)) as [L2|L2].
-      + destruct (Nat.leb_spec (length ic) (length rc)); [|lia].
-        replace (length frc - length fic)%nat with (length rc - length ic)%nat by lia.
-        apply ss_middle; [exact Hp1|fold rc; lia].
-      + destruct (Nat.leb_spec (length ic) (length rc)).
-        * replace (length rc - length ic)%nat with O by lia. unfold sum_smallest. simpl. lia.
-        * lia. }
-  assert (HU : zsum rc + zsum ic <= zsum frc + zsum fic).
-  { pose proof (zsum_middle_le p q frc Hp1 Hf1) as Z1. pose proof (zsum_middle_le p q fic Hp2 Hf2) as Z2.
-    fold rc in Z1. fold ic in Z2. lia. }
-  apply (ed_contract_inv C (ed_constant_cost frc fic) (zsum frc + zsum fic) rc ic mcs Hd Hrc Hic Hmc HK0 HK HU).
-  left. split; [cbn [ed_init e_d]; lia|]. cbn [ed_init e_d].
-  split; [|split; [reflexivity|split]].
-  - unfold base. cbn [ed_init e_K e_U e_rc e_ic e_err e_kids e_cost]. fold rc ic.
-    repeat split; try reflexivity; try assumption.
-    + intros r Hr. rewrite Forall_forall in Kr. apply Kr. apply nth_In. lia.
-    + intros r c x Hr Hc Hx. unfold mcv, mcs.
-      assert (Ir : In (nth r kids []) kids) by (apply nth_In; lia).
-      assert (Ix : In x (nth r kids [])) by (apply (nth_error_In _ _ Hx)).
-      rewrite Forall_forall in Kok. specialize (Kok _ Ir). rewrite Forall_forall in Kok.
-      destruct (kid_ok_spec C x (Kok x Ix)) as [Cx _].
-      replace (nth c (nth r (map (map (finv C)) kids) []) 0) with (finv C x); [exact Cx|].
-      change (@nil Z) with (map (finv C) []). rewrite map_nth.
-      symmetry. apply nth_nth_error. apply map_nth_error. exact Hx.
-    + rewrite repeat_length. reflexivity.
-    + intros r Hr. rewrite nth_repeat' by lia. rewrite repeat_length. reflexivity.
-  - cbn [ed_init e_kids]. exact Hpos.
-  - intros r c Hr Hc [L|[E _]]; [lia|]. assert (r = O) by lia. assert (c = O) by lia. subst r c.
-    cbn [ed_init e_cost]. unfold cell_at. rewrite nth_repeat' by lia. rewrite nth_repeat' by lia. reflexivity.
-Qed.
-
-(* ---------------------------------------------------------------- the hypotheses are satisfiable (non-trivial instances) *)
-Lemma const_kid_ok : forall c, 0 <= c -> kid_ok constM c.
-Proof. intros c H. split; [exists c; apply cv_weaken; apply const_contract|exact H]. Qed.
-
-(* FixedLengthSequenceEdit over three constant sub-edits and a surplus tail costing 3 *)
-Example fixed_instance : ContractV true (fixedM constM) ([1; 0; 2], 3) 6.
-Proof.
-  apply (fixed_contract true constM [1; 0; 2] [1; 0; 2] 3).
-  repeat constructor; apply const_contract.
-Qed.
-
-(* KeyValuePairEdit over a FixedLengthSequenceEdit and a constant *)
-Example sum_instance : ContractV true (sumM (fixedM constM)) [([1; 0; 2], 3); ([], 0)] 6.
-Proof.
-  apply (sum_contract true (fixedM constM) [([1; 0; 2], 3); ([], 0)] [6; 0]).
-  constructor; [apply fixed_instance|]. constructor; [|constructor].
-  apply (fixed_contract true constM [] [] 0). constructor.
-Qed.
-
-(* EditDistance "ab" -> "b" over its four character edits: [1,3] -> [1,1] -> ... *)
-Example ed_instance : exists v, ContractV true (edM constM) (ed_init [1; 1] [1] 0 0 [[1; 0]]) v.
-Proof.
-  eexists. apply (ed_init_contract constM [1; 1] [1] 0 0 [[1; 0]]); simpl; try lia.
-  - repeat constructor; lia.
-  - repeat constructor; lia.
-  - repeat constructor.
-  - repeat constructor; apply const_kid_ok; lia.
-Qed.
-
-Example ed_instance_trace :
-  trace_of (edM constM) 4 (ed_init [1; 1] [1] 0 0 [[1; 0]]) =
-  [EB (Fin 1, Fin 3); ET true; EB (Fin 1, Fin 1); EB (Fin 1, Fin 1); ET false; EB (Fin 1, Fin 1)].
-Proof. vm_compute. reflexivity. Qed.
-
+Section Orc.
+Variable orc : oracle.      (* the answers of make_distinct and of the assignment solver: arbitrary *)
 
 (* ================================================================ Part D: the universal machine, induction over trees *)
 
@@ -1417,6 +43,16 @@ Proof.
   intros k d e v H. apply (cv_embed k (edM (UM d)) (UM (S d)) SED); [reflexivity|reflexivity|exact H].
 Qed.
 
+Lemma um_coll : forall d c v, ContractV true (collM (UM d)) c v -> ContractV true (UM (S d)) (SColl c) v.
+Proof.
+  intros d c v H. apply (cv_embed true (collM (UM d)) (UM (S d)) SColl); [reflexivity|reflexivity|exact H].
+Qed.
+
+Lemma um_mset : forall d m v, ContractV true (msetM (UM d)) m v -> ContractV true (UM (S d)) (SMSet m) v.
+Proof.
+  intros d m v H. apply (cv_embed true (msetM (UM d)) (UM (S d)) SMSet); [reflexivity|reflexivity|exact H].
+Qed.
+
 Lemma Forall_exists_Forall2 : forall {A B} (P : A -> B -> Prop) l, Forall (fun x => exists y, P x y) l ->
   exists ys, Forall2 P l ys.
 Proof.
@@ -1431,8 +67,8 @@ Proof.
 Qed.
 
 Lemma mget_init_matrix : forall cs ds i j r,
-  mget (map (fun c => map (fun d => initU c d) ds) cs) i j = Some r ->
-  exists c d, nth_error cs i = Some c /\ nth_error ds j = Some d /\ r = initU c d.
+  mget (map (fun c => map (fun d => initO orc c d) ds) cs) i j = Some r ->
+  exists c d, nth_error cs i = Some c /\ nth_error ds j = Some d /\ r = initO orc c d.
 Proof.
   intros cs ds i j r H. unfold mget in H. rewrite nth_error_map in H.
   destruct (nth_error cs i) as [c|] eqn:Ec; [|discriminate]. cbn [option_map] in H.
@@ -1478,6 +114,37 @@ Proof.
     rewrite Forall_forall in H. apply (H s Hs).
   - intros d Hd. cbn [sheight] in Hd. destruct d as [|d]; [lia|].
     destruct (good_kids l d H ltac:(lia)) as [vs Hvs]. exists (zsum vs). apply (um_sum true d l vs Hvs).
+Qed.
+
+(* bounds() changes neither the iterator nor the expanded edits *)
+Lemma coll_bounds_shape : forall {X} (b : X -> zr) (s : coll X),
+  k_pend (fst (coll_bounds b s)) = k_pend s /\ k_subs (fst (coll_bounds b s)) = k_subs s.
+Proof.
+  intros X b s. unfold coll_bounds. destruct (negb (k_valid s)); [auto|]. destruct (k_cost s); [auto|].
+  destruct (k_U s <? fst (coll_total b s)); [auto|]. destruct (k_pend s) eqn:E; cbn [fst]; [rewrite E; auto|].
+  destruct (zdefb _); cbn [fst set_memo k_pend k_subs]; rewrite ?E; auto.
+Qed.
+
+(* FixedKeyDictNodeEdit over good children whose initial upper bounds fit its cost_upper_bound *)
+Lemma good_coll : forall kids U, Forall Good kids -> zsum (map (fun s => snd (bndU s)) kids) <= U ->
+  Good (SColl (coll_init bndU U kids)).
+Proof.
+  intros kids U H Hb.
+  assert (Hk : forall d, (nat_max_list (map sheight kids) <= d)%nat ->
+               exists vs, Forall2 (kid_okc (UM d)) kids vs).
+  { intros d Hd. apply Forall_exists_Forall2. apply Forall_forall. intros x Hx.
+    rewrite Forall_forall in H. destruct (H x Hx) as [L Hc].
+    pose proof (nat_max_list_ge (map sheight kids) (sheight x) (in_map sheight kids x Hx)).
+    destruct (Hc d ltac:(lia)) as [v Hv]. exists v. split; [exact Hv|exact L]. }
+  split.
+  - destruct (Hk _ (le_n _)) as [vs Hvs]. change (0 <= fst (coll_bnd bndU (coll_init bndU U kids))).
+    pose proof (coll_init_bnd (UM (nat_max_list (map sheight kids))) U kids vs Hvs Hb) as E. cbn [UM bnd St] in E.
+    rewrite E. cbn [fst]. lia.
+  - intros d Hd. cbn [sheight] in Hd. unfold coll_init in Hd.
+    destruct (coll_bounds_shape bndU (mk_coll U (Some kids) [] None true)) as [E1 E2]. rewrite E1, E2 in Hd.
+    cbn [k_pend k_subs map nat_max_list] in Hd.
+    destruct d as [|d]; [lia|]. destruct (Hk d ltac:(lia)) as [vs Hvs].
+    exists (zsum vs). apply um_coll. apply (coll_contract (UM d) U kids vs Hvs Hb).
 Qed.
 
 Lemma ed_constant_cost_nonneg : forall frc fic, Forall (fun x => 0 <= x) frc -> Forall (fun x => 0 <= x) fic ->
@@ -1570,6 +237,12 @@ Proof.
   - destruct b as [y| |ake' k' v'| |]; try discriminate.
     destruct (ake || node_eqb k k'); [discriminate|]. injection H as <-.
     pose proof (replace_cost_pos (Kvp ake k v) (Kvp ake' k' v')). lia.
+  - pose proof (replace_cost_pos (MSet amk cs) b).
+    destruct b as [y| | |amk' ds|]; try discriminate; try (injection H as <-; lia).
+    destruct (_ || _); [injection H as <-; lia|discriminate].
+  - pose proof (replace_cost_pos (FDict cs) b).
+    destruct b as [y| | | |ds]; try discriminate; try (injection H as <-; lia).
+    destruct (_ || _); [injection H as <-; lia|discriminate].
 Qed.
 
 (* ---------------------------------------------------------------- facts about the dispatch *)
@@ -1592,10 +265,10 @@ Proof.
 Qed.
 
 (* a string edit that can still be tightened is between two strings that are not both empty *)
-Lemma leaf_pair_pos : forall x y s, initU (Leaf x) (Leaf y) = Some s -> ~ zdefinitive (bndU s) ->
+Lemma leaf_pair_pos : forall x y s, initO orc (Leaf x) (Leaf y) = Some s -> ~ zdefinitive (bndU s) ->
   0 < leaf_size x + leaf_size y.
 Proof.
-  intros x y s H N. cbn [initU] in H. destruct (const_of (Leaf x) (Leaf y)) as [c|] eqn:Ec.
+  intros x y s H N. cbn [initO] in H. destruct (const_of (Leaf x) (Leaf y)) as [c|] eqn:Ec.
   - injection H as <-. exfalso. apply N. reflexivity.
   - destruct (lk x) eqn:Kx; try discriminate. destruct (lk y) eqn:Ky; try discriminate.
     cbn [const_of] in Ec. unfold leaf_script in Ec. rewrite Kx, Ky in Ec.
@@ -1629,13 +302,13 @@ Proof.
   rewrite (nth_error_seq k 0 i Hi) in E. injection E as <-. auto.
 Qed.
 
-(* the children matrix of an EditDistance built by initU: where each entry comes from *)
+(* the children matrix of an EditDistance built by initO orc: where each entry comes from *)
 Lemma ed_kids_entry : forall cs ds p nr nc ks r c x,
-  all_some_l (map (fun r => all_some_l (map (fun c => match mget (map (fun c => map (fun d => initU c d) ds) cs) (p + c) (p + r) with
+  all_some_l (map (fun r => all_some_l (map (fun c => match mget (map (fun c => map (fun d => initO orc c d) ds) cs) (p + c) (p + r) with
                                                          | Some (Some s) => Some s | _ => None end) (seq 0 nc))) (seq 0 nr)) = Some ks ->
   nth_error (nth r ks []) c = Some x ->
   (r < nr)%nat /\ (c < nc)%nat /\
-  exists c0 d0, nth_error cs (p + c) = Some c0 /\ nth_error ds (p + r) = Some d0 /\ initU c0 d0 = Some x.
+  exists c0 d0, nth_error cs (p + c) = Some c0 /\ nth_error ds (p + r) = Some d0 /\ initO orc c0 d0 = Some x.
 Proof.
   intros cs ds p nr nc ks r c x Hk Hx.
   assert (Hr : (r < length ks)%nat).
@@ -1661,12 +334,12 @@ Proof.
   rewrite insert_cost_eq. pose proof (size_nonneg c). lia.
 Qed.
 
-Definition Pgood (a : tree) : Prop := forall b s, initU a b = Some s -> Good s.
+Definition Pgood (a : tree) : Prop := forall b s, initO orc a b = Some s -> Good s.
 
 Lemma good_list_ed : forall ale alsl cs b pen s, Forall Pgood cs ->
   list_dispatch (Lst ale alsl cs) b = LEditDist pen ->
   (let ds := match b with Lst _ _ ds => ds | _ => [] end in
-   let M := map (fun c => map (fun d => initU c d) ds) cs in
+   let M := map (fun c => map (fun d => initO orc c d) ds) cs in
    let '(p, q) := trim node_eqb cs ds in
    let nc := length (middle p q cs) in
    let nr := length (middle p q ds) in
@@ -1716,7 +389,7 @@ Lemma zsum_map_nonneg : forall {A} (f : A -> Z) l, (forall x, 0 <= f x) -> 0 <= 
 Proof. intros A f l H. apply zsum_nonneg. apply Forall_forall. intros y Hy. apply in_map_iff in Hy. destruct Hy as (x & <- & _). apply H. Qed.
 
 Lemma good_list_fixed : forall cs ds s, Forall Pgood cs ->
-  (let M := map (fun c => map (fun d => initU c d) ds) cs in
+  (let M := map (fun c => map (fun d => initO orc c d) ds) cs in
    let n := length cs in
    let m := length ds in
    let pairs := map (fun i => match mget M i i with Some (Some s) => Some s | _ => None end) (seq 0 (Nat.min n m)) in
@@ -1747,49 +420,209 @@ Proof.
       try pose proof (A _ (seq (insert_from_pos (length cs) (length ds)) (length ds - insert_from_pos (length cs) (length ds))) I); lia.
 Qed.
 
+Lemma good_fdict : forall cs ds s, Forall Pgood cs ->
+  (let a := FDict cs in let b := FDict ds in
+   let M := map (fun c => map (fun d => initO orc c d) ds) cs in
+   let partner := fun c => find_index (fun d => node_eqb (kvp_key c) (kvp_key d)) ds 0 in
+   let shared := flat_map (fun i => match partner (nth i cs dummy) with Some j => [(i, j)] | None => [] end)
+                          (seq 0 (length cs)) in
+   let unshared := filter (fun i => match partner (nth i cs dummy) with Some _ => false | None => true end)
+                          (seq 0 (length cs)) in
+   let inserted := filter (fun j => negb (existsb (fun c => node_eqb (kvp_key c) (kvp_key (nth j ds dummy))) cs))
+                          (seq 0 (length ds)) in
+   let get := fun (ij : nat * nat) =>
+       if node_eqb (nth (fst ij) cs dummy) (nth (snd ij) ds dummy) then Some (SConst 0)
+       else match mget M (fst ij) (snd ij) with Some (Some s) => Some s | _ => None end in
+   if fixed_dict_removals_in_hash_order || negb (forallb is_kvp cs && forallb is_kvp ds) then None
+   else
+     match all_some_l (map get shared) with
+     | Some sh =>
+         let kids := sh ++ map (fun i => SConst (remove_cost (nth i cs dummy) 1)) unshared
+                        ++ map (fun j => SConst (insert_cost (nth j ds dummy) 1)) inserted in
+         let U := size a + 1 + size b in
+         if zsum (map (fun s => snd (bndU s)) kids) <=? U then Some (SColl (coll_init bndU U kids)) else None
+     | None => None
+     end) = Some s -> Good s.
+Proof.
+  intros cs ds s IH H. cbn zeta in H.
+  destruct (_ || _); [discriminate|]. destruct (all_some_l _) as [sh|] eqn:Es; [|discriminate].
+  destruct (_ <=? _) eqn:Eb; [|discriminate]. injection H as <-. apply Z.leb_le in Eb.
+  apply good_coll; [|exact Eb].
+  apply Forall_app. split; [|apply Forall_app; split].
+  - apply Forall_forall. intros x Hx. destruct (In_nth_error _ _ Hx) as [i Ei].
+    pose proof (all_some_l_nth _ _ _ _ Es Ei) as H1. rewrite nth_error_map in H1.
+    destruct (nth_error (flat_map _ _) i) as [[i0 j0]|]; [|discriminate]. cbn [option_map fst snd] in H1.
+    destruct (node_eqb _ _); [injection H1 as <-; apply good_const; lia|].
+    destruct (mget _ i0 j0) as [[s'|]|] eqn:Em; try discriminate. injection H1 as ->.
+    destruct (mget_init_matrix _ _ _ _ _ Em) as (c0 & d0 & E1 & _ & E3).
+    rewrite Forall_forall in IH. apply (IH c0 (nth_error_In _ _ E1) d0 _ (eq_sym E3)).
+  - apply Forall_forall. intros x Hx. apply in_map_iff in Hx. destruct Hx as (i & <- & _). apply good_const.
+    rewrite remove_cost_eq. pose proof (size_nonneg (nth i cs dummy)). lia.
+  - apply Forall_forall. intros x Hx. apply in_map_iff in Hx. destruct Hx as (j & <- & _). apply good_const.
+    rewrite insert_cost_eq. pose proof (size_nonneg (nth j ds dummy)). lia.
+Qed.
+
+(* matcher.bounds() only touches the memo *)
+Lemma mt_bounds_shape : forall {X} (b : X -> zr) (s : mset X),
+  m_kvp (fst (mt_bounds b s)) = m_kvp s /\ m_edges (fst (mt_bounds b s)) = m_edges s.
+Proof. intros X b s. unfold mt_bounds. destruct (m_memo s); [auto|]. destruct (zdefb _); auto. Qed.
+
+Lemma zmin_list_nonneg : forall l, Forall (fun x => 0 <= x) l -> 0 <= zmin_list l.
+Proof.
+  intros [|x l] H; [simpl; lia|]. apply zmin_list_ge; [discriminate|]. intros y Hy. rewrite Forall_forall in H. apply H. exact Hy.
+Qed.
+
+(* MultiSetEdit (with its matcher) over good pre-matched edits and good edges *)
+Lemma good_mset : forall kv edges rem ins cnt asg,
+  Forall Good kv -> Forall (Forall Good) edges ->
+  length edges = length rem -> Forall (fun row => length row = length ins) edges ->
+  Forall (fun x => 0 <= x) rem -> Forall (fun x => 0 <= x) ins ->
+  Good (SMSet (mset_init bndU kv edges rem ins cnt asg)).
+Proof.
+  intros kv edges rem ins cnt asg Hkv Hed L1 L2 Hrem Hins.
+  set (raw := mk_mset kv edges rem ins false None None cnt asg).
+  set (hk := Nat.max (nat_max_list (map sheight kv)) (nat_max_list (map (fun row => nat_max_list (map sheight row)) edges))).
+  assert (Inv : forall d, (hk <= d)%nat ->
+            MInv (UM d) rem ins cnt asg (fun i j => match mget edges i j with Some x => finv (UM d) x | None => 0 end)
+                 (map (finv (UM d)) kv) raw).
+  { intros d Hd. constructor; cbn [raw m_rem m_ins m_asg m_counts m_edges m_match m_memo m_kvp]; try reflexivity; try discriminate.
+    - split; [exact L1|]. split.
+      + intros i Hi. rewrite Forall_forall in L2. apply L2. apply nth_In.
+        assert (Q : (i < length rem)%nat -> (i < @length (list st) edges)%nat) by (rewrite L1; auto). exact (Q Hi).
+      + intros i j x Hx. cbn [UM St] in *. rewrite Hx. destruct (in_matrix edges i j x) as (row & Hrow & Hin); [rewrite <- mget_nth; exact Hx|].
+        rewrite Forall_forall in Hed. specialize (Hed row Hrow). rewrite Forall_forall in Hed. destruct (Hed x Hin) as [_ Hc].
+        assert (Hh : (sheight x <= d)%nat).
+        { pose proof (nat_max_list_ge (map sheight row) (sheight x) (in_map sheight row x Hin)).
+          pose proof (nat_max_list_ge (map (fun row => nat_max_list (map sheight row)) edges) _
+                                      (in_map (fun row => nat_max_list (map sheight row)) edges row Hrow)). lia. }
+        destruct (Hc d Hh) as [v Hv]. rewrite (finv_spec _ _ _ _ Hv). exact Hv.
+    - clear - Hkv Hd. assert (Hd' : (nat_max_list (map sheight kv) <= d)%nat) by lia. clear Hd.
+      induction Hkv as [|x l [_ Hc] _ IH]; cbn [map]; constructor.
+      + cbn [map nat_max_list] in Hd'. destruct (Hc d ltac:(lia)) as [v Hv]. rewrite (finv_spec _ _ _ _ Hv). exact Hv.
+      + apply IH. cbn [map nat_max_list] in Hd'. lia. }
+  split.
+  - pose proof (Inv hk (le_n _)) as I. destruct (ms_norm _ _ _ _ _ _ _ _ I) as [_ E].
+    change (0 <= fst (msb (UM hk) (fst (ms_bounds (bnd (UM hk)) raw)))). rewrite E, msb_eq.
+    assert (A : 0 <= fst (mtb (UM hk) raw)).
+    { unfold mtb, mt_bounds. cbn [raw m_memo]. destruct (zdefb _); cbn [snd]; unfold mt_compute; destruct (m_empty _); cbn [fst]; try lia;
+        cbn [raw m_match]; cbn [fst]; apply ss_nonneg; apply Forall_forall; intros z Hz; apply in_map_iff in Hz; destruct Hz as (row & <- & Hrow);
+        apply zmin_list_nonneg; apply Forall_forall; intros y Hy; apply in_map_iff in Hy; destruct Hy as (r & <- & Hr);
+        unfold bmat in Hrow; apply in_map_iff in Hrow; destruct Hrow as (row0 & <- & Hrow0); apply in_map_iff in Hr; destruct Hr as (x & <- & Hx);
+        rewrite Forall_forall in Hed; specialize (Hed row0 Hrow0); rewrite Forall_forall in Hed; apply (Hed x Hx). }
+    assert (B : 0 <= fst (KB (UM hk) raw)).
+    { unfold KB. cbn [raw m_kvp]. apply zr_sum_lo_nonneg. apply Forall_forall. intros r Hr. apply in_map_iff in Hr. destruct Hr as (x & <- & Hx).
+      rewrite Forall_forall in Hkv. apply (Hkv x Hx). }
+    assert (D : 0 <= fst (LP (UM hk) raw)).
+    { unfold LP. cbn [raw m_match]. destruct (Nat.ltb _ _); [cbn [fst]; apply ss_nonneg; exact Hrem|].
+      destruct (Nat.ltb _ _); [cbn [fst]; apply ss_nonneg; exact Hins|cbn [fst]; lia]. }
+    unfold zr_add. cbn [fst]. lia.
+  - intros d Hd. cbn [sheight] in Hd. unfold mset_init in Hd. change (ms_bounds bndU raw) with (ms_bounds bndU raw) in Hd.
+    assert (Sh : m_kvp (fst (ms_bounds bndU raw)) = kv /\ m_edges (fst (ms_bounds bndU raw)) = edges).
+    { change (fst (ms_bounds bndU raw)) with (fst (mt_bounds bndU raw)). apply (mt_bounds_shape bndU raw). }
+    destruct Sh as [Sh1 Sh2]. fold raw in Hd. rewrite Sh1, Sh2 in Hd.
+    destruct d as [|d]; [lia|]. eexists. apply um_mset.
+    apply (mset_contract (UM d) rem ins cnt asg _ _ raw (Inv d ltac:(unfold hk; lia))).
+Qed.
+
+Lemma good_msetnode : forall (amk : bool) cs ds s, Forall Pgood cs ->
+  (let M := map (fun c => map (fun d => initO orc c d) ds) cs in
+   let pre := if amk then prematch cs 0 ds [] else [] in
+   let fl := filter (fun i => negb (nat_in i (map fst pre))) (seq 0 (length cs)) in
+   let tl := filter (fun j => negb (nat_in j (map snd pre))) (seq 0 (length ds)) in
+   let eq_ij := fun i j => node_eqb (nth i cs dummy) (nth j ds dummy) in
+   let R := filter (fun i => negb (existsb (fun j => eq_ij i j) tl)) fl in
+   let I := filter (fun j => negb (existsb (fun i => eq_ij i j) fl)) tl in
+   let get := fun i j => match mget M i j with Some (Some s) => Some s | _ => None end in
+   if negb (distinct_nodes cs && distinct_nodes ds) then None
+   else
+     match all_some_l (map (fun ij => get (fst ij) (snd ij)) pre),
+           all_some_l (map (fun i => all_some_l (map (fun j => get i j) I)) R) with
+     | Some kv, Some edges =>
+         let ans := orc_lookup orc (map (fun i => nth i cs dummy) R) (map (fun j => nth j ds dummy) I) in
+         Some (SMSet (mset_init bndU kv edges (map (fun i => remove_cost (nth i cs dummy) 1) R)
+                                (map (fun j => insert_cost (nth j ds dummy) 1) I) (fst ans) (snd ans)))
+     | _, _ => None
+     end) = Some s -> Good s.
+Proof.
+  intros amk cs ds s IH H. cbn zeta in H.
+  destruct (negb _); [discriminate|].
+  destruct (all_some_l (map _ (if amk then _ else _))) as [kv|] eqn:Ek; [|discriminate].
+  destruct (all_some_l (map _ (filter _ (filter _ (seq 0 (length cs)))))) as [edges|] eqn:Ee; [|discriminate].
+  injection H as <-.
+  assert (G : forall i j x, match mget (map (fun c => map (fun d => initO orc c d) ds) cs) i j with Some (Some s) => Some s | _ => None end = Some x -> Good x).
+  { intros i j x Hx. destruct (mget _ i j) as [[s'|]|] eqn:Em; try discriminate. injection Hx as ->.
+    destruct (mget_init_matrix _ _ _ _ _ Em) as (c0 & d0 & E1 & _ & E3).
+    rewrite Forall_forall in IH. apply (IH c0 (nth_error_In _ _ E1) d0 _ (eq_sym E3)). }
+  apply good_mset.
+  - apply Forall_forall. intros x Hx. destruct (In_nth_error _ _ Hx) as [i Ei].
+    pose proof (all_some_l_nth _ _ _ _ Ek Ei) as H1. rewrite nth_error_map in H1.
+    destruct (nth_error (if amk then _ else _) i) as [[i0 j0]|]; [|discriminate]. cbn [option_map fst snd] in H1.
+    injection H1 as H1. apply (G i0 j0 x H1).
+  - apply Forall_forall. intros row Hrow. apply Forall_forall. intros x Hx.
+    destruct (In_nth_error _ _ Hrow) as [r Er]. destruct (In_nth_error _ _ Hx) as [c Ec].
+    pose proof (all_some_l_nth _ _ _ _ Ee Er) as H1. rewrite nth_error_map in H1.
+    destruct (nth_error (filter _ (filter _ (seq 0 (length cs)))) r) as [i0|]; [|discriminate]. cbn [option_map] in H1. injection H1 as H1.
+    pose proof (all_some_l_nth _ _ _ _ H1 Ec) as H2. rewrite nth_error_map in H2.
+    destruct (nth_error (filter _ (filter _ (seq 0 (length ds)))) c) as [j0|]; [|discriminate]. cbn [option_map] in H2. injection H2 as H2.
+    apply (G i0 j0 x H2).
+  - rewrite (all_some_l_length _ _ Ee), !map_length. reflexivity.
+  - apply Forall_forall. intros row Hrow. destruct (In_nth_error _ _ Hrow) as [r Er].
+    pose proof (all_some_l_nth _ _ _ _ Ee Er) as H1. rewrite nth_error_map in H1.
+    destruct (nth_error (filter _ (filter _ (seq 0 (length cs)))) r) as [i0|]; [|discriminate]. cbn [option_map] in H1. injection H1 as H1.
+    rewrite (all_some_l_length _ _ H1), !map_length. reflexivity.
+  - apply Forall_forall. intros x Hx. apply in_map_iff in Hx. destruct Hx as (i & <- & _).
+    rewrite remove_cost_eq. pose proof (size_nonneg (nth i cs dummy)). lia.
+  - apply Forall_forall. intros x Hx. apply in_map_iff in Hx. destruct Hx as (j & <- & _).
+    rewrite insert_cost_eq. pose proof (size_nonneg (nth j ds dummy)). lia.
+Qed.
+
 (* C04, closing induction: the edit of every pair of trees of the modelled fragment (scalars, strings, nested lists under
    all list options, key/value pairs) satisfies the strict contract, at every depth the machine is run with *)
-Theorem initU_good : forall a, Pgood a.
+Theorem initO_good : forall a, Pgood a.
 Proof.
   apply tree_rect'.
-  - intros x b s H. cbn [initU] in H. destruct (const_of (Leaf x) b) as [c|] eqn:Ec.
+  - intros x b s H. cbn [initO] in H. destruct (const_of (Leaf x) b) as [c|] eqn:Ec.
     + injection H as <-. apply good_const. apply (const_of_nonneg _ _ _ Ec).
     + destruct b as [y| | | |]; try discriminate. destruct (lk x); try discriminate; destruct (lk y); try discriminate.
       injection H as <-. apply good_str.
-  - intros ale alsl cs IH b s H. cbn [initU] in H. destruct (const_of (Lst ale alsl cs) b) as [c|] eqn:Ec.
+  - intros ale alsl cs IH b s H. cbn [initO] in H. destruct (const_of (Lst ale alsl cs) b) as [c|] eqn:Ec.
     + injection H as <-. apply good_const. apply (const_of_nonneg _ _ _ Ec).
     + destruct (list_dispatch (Lst ale alsl cs) b) eqn:Ed; try discriminate.
       * apply (good_list_fixed cs (match b with Lst _ _ ds => ds | _ => [] end) s IH H).
       * apply (good_list_ed ale alsl cs b penalty s IH Ed H).
-  - intros ake k v IHk IHv b s H. cbn [initU] in H. destruct (const_of (Kvp ake k v) b) as [c|] eqn:Ec.
+  - intros ake k v IHk IHv b s H. cbn [initO] in H. destruct (const_of (Kvp ake k v) b) as [c|] eqn:Ec.
     + injection H as <-. apply good_const. apply (const_of_nonneg _ _ _ Ec).
     + destruct b as [y| |ake' k' v'| |]; try discriminate.
-      assert (Hk : forall x, (if node_eqb k k' then Some (SConst 0) else initU k k') = Some x -> Good x).
+      assert (Hk : forall x, (if node_eqb k k' then Some (SConst 0) else initO orc k k') = Some x -> Good x).
       { intros x Hx. destruct (node_eqb k k'); [injection Hx as <-; apply good_const; lia|apply (IHk k' x Hx)]. }
-      assert (Hv : forall x, (if node_eqb v v' then Some (SConst 0) else initU v v') = Some x -> Good x).
+      assert (Hv : forall x, (if node_eqb v v' then Some (SConst 0) else initO orc v v') = Some x -> Good x).
       { intros x Hx. destruct (node_eqb v v'); [injection Hx as <-; apply good_const; lia|apply (IHv v' x Hx)]. }
       destruct (if node_eqb k k' then _ else _) as [x|]; [|discriminate].
       destruct (if node_eqb v v' then _ else _) as [y|]; [|discriminate]. injection H as <-.
       apply good_sum. constructor; [apply Hk; reflexivity|]. constructor; [apply Hv; reflexivity|constructor].
-  - intros amk cs IH b s H. cbn [initU const_of] in H. discriminate.
-  - intros cs IH b s H. cbn [initU const_of] in H. discriminate.
+  - intros amk cs IH b s H. cbn [initO] in H. destruct (const_of (MSet amk cs) b) as [c|] eqn:Ec.
+    + injection H as <-. apply good_const. apply (const_of_nonneg _ _ _ Ec).
+    + destruct b as [y| | |amk' ds|]; try discriminate. apply (good_msetnode amk cs ds s IH H).
+  - intros cs IH b s H. cbn [initO] in H. destruct (const_of (FDict cs) b) as [c|] eqn:Ec.
+    + injection H as <-. apply good_const. apply (const_of_nonneg _ _ _ Ec).
+    + destruct b as [y| | | |ds]; try discriminate. apply (good_fdict cs ds s IH H).
 Qed.
 
-Theorem initU_contract : forall a b s, initU a b = Some s -> Contract (UM (sheight s)) s.
-Proof. intros a b s H. destruct (initU_good a b s H) as [_ Hc]. apply (Hc (sheight s) (le_n _)). Qed.
+Theorem initO_contract : forall a b s, initO orc a b = Some s -> Contract (UM (sheight s)) s.
+Proof. intros a b s H. destruct (initO_good a b s H) as [_ Hc]. apply (Hc (sheight s) (le_n _)). Qed.
 
 (* the fragment is not empty: nested lists with strings, all three classes below the root *)
-Example initU_instance :
-  exists s, initU (Lst true true [Leaf (Build_leaf KStr [97;98] 0 0); Lst true true [Leaf (Build_leaf KInt [49] 1 0)]])
+Example initO_instance :
+  exists s, initO orc (Lst true true [Leaf (Build_leaf KStr [97;98] 0 0); Lst true true [Leaf (Build_leaf KInt [49] 1 0)]])
                   (Lst true true [Leaf (Build_leaf KStr [97;99] 0 0); Lst true true [Leaf (Build_leaf KInt [50] 2 0)];
                                   Leaf (Build_leaf KNull [] 0 0)]) = Some s /\ sheight s = 2%nat /\ bndU s = (1, 13).
 Proof. eexists. split; [vm_compute; reflexivity|]. split; reflexivity. Qed.
 
 (* the executable statement (the boolean evaluated on the implementation's traces) on the model's own trace *)
-Theorem model_trace_holds : forall a b s, initU a b = Some s ->
+Theorem model_trace_holds : forall a b s, initO orc a b = Some s ->
   holds_events (trace_of (UM (sheight s)) (S (S (Z.to_nat (width (bndU s))))) s) = true.
 Proof.
-  intros a b s H. destruct (initU_contract a b s H) as [v Hv].
+  intros a b s H. destruct (initO_contract a b s H) as [v Hv].
   apply (contract_trace_holds (UM (sheight s)) s v); [exact Hv|]. cbn [UM bnd]. lia.
 Qed.
 
@@ -1810,3 +643,24 @@ Qed.
 
 Theorem str_contract : forall s t d, exists v, ContractV true (UM (S d)) (str_state s t) v.
 Proof. intros s t d. destruct (good_str s t) as [_ H]. apply H. rewrite str_state_height. lia. Qed.
+End Orc.
+
+(* without oracle answers (initU = initO []): make_distinct makes no calls and the diagonal matching is taken *)
+Theorem initU_contract : forall a b s, initU a b = Some s -> Contract (UM (sheight s)) s.
+Proof. intros a b s H. apply (initO_contract [] a b s H). Qed.
+
+(* the mapping fragments are not empty: {"a": "ab", "b": 1} -> {"a": "ac", "c": 1} as FixedKeyDictNodes and as DictNodes *)
+Definition ex_kvp (ake : bool) (k : Z) (v : tree) : tree := Kvp ake (Leaf (Build_leaf KStr [k] 0 0)) v.
+Definition ex_str (l : list Z) : tree := Leaf (Build_leaf KStr l 0 0).
+Definition ex_int : tree := Leaf (Build_leaf KInt [49] 1 0).
+Example initO_fdict_instance :
+  exists s c, initO [] (FDict [ex_kvp false 97 (ex_str [97; 98]); ex_kvp false 98 ex_int])
+                       (FDict [ex_kvp false 97 (ex_str [97; 99]); ex_kvp false 99 ex_int]) = Some (SColl c) /\
+              s = SColl c /\ bndU s = (0, 23) /\ length (match k_pend c with Some l => l | None => [] end) = 3%nat.
+Proof. eexists. eexists. split; [vm_compute; reflexivity|]. split; [reflexivity|]. split; reflexivity. Qed.
+
+Example initO_dict_instance :
+  exists m, initO [] (MSet true [ex_kvp true 97 (ex_str [97; 98]); ex_kvp true 98 ex_int])
+                     (MSet true [ex_kvp true 97 (ex_str [97; 99]); ex_kvp true 99 ex_int]) = Some (SMSet m) /\
+            length (m_kvp m) = 1%nat /\ length (m_edges m) = 1%nat /\ fst (bndU (SMSet m)) < snd (bndU (SMSet m)).
+Proof. eexists. split; [vm_compute; reflexivity|]. split; [reflexivity|]. split; [reflexivity|vm_compute; reflexivity]. Qed.
